@@ -255,12 +255,26 @@ module Coq_Pos =
              | XH -> true
              | _ -> false)
 
+  (** val testbit : positive -> n -> bool **)
+
+  let rec testbit p n0 =
+    match p with
+    | XI p0 -> (match n0 with
+                | N0 -> true
+                | Npos n1 -> testbit p0 (pred_N n1))
+    | XO p0 -> (match n0 with
+                | N0 -> false
+                | Npos n1 -> testbit p0 (pred_N n1))
+    | XH -> (match n0 with
+             | N0 -> true
+             | Npos _ -> false)
+
   (** val iter_op : ('a1 -> 'a1 -> 'a1) -> positive -> 'a1 -> 'a1 **)
 
-  let rec iter_op op p a =
+  let rec iter_op op0 p a =
     match p with
-    | XI p0 -> op a (iter_op op p0 (op a a))
-    | XO p0 -> iter_op op p0 (op a a)
+    | XI p0 -> op0 a (iter_op op0 p0 (op0 a a))
+    | XO p0 -> iter_op op0 p0 (op0 a a)
     | XH -> a
 
   (** val to_nat : positive -> nat **)
@@ -456,6 +470,13 @@ module N =
   | N0 -> a
   | Npos p -> Coq_Pos.iter div2 a p
 
+  (** val testbit : n -> n -> bool **)
+
+  let testbit a n0 =
+    match a with
+    | N0 -> false
+    | Npos p -> Coq_Pos.testbit p n0
+
   (** val to_nat : n -> nat **)
 
   let to_nat = function
@@ -479,6 +500,12 @@ let rec nth_error l = function
            | [] -> None
            | _ :: l0 -> nth_error l0 n1)
 
+(** val rev : 'a1 list -> 'a1 list **)
+
+let rec rev = function
+| [] -> []
+| x :: l' -> app (rev l') (x :: [])
+
 (** val map : ('a1 -> 'a2) -> 'a1 list -> 'a2 list **)
 
 let rec map f = function
@@ -490,6 +517,31 @@ let rec map f = function
 let rec flat_map f = function
 | [] -> []
 | x :: t -> app (f x) (flat_map f t)
+
+(** val fold_left : ('a1 -> 'a2 -> 'a1) -> 'a2 list -> 'a1 -> 'a1 **)
+
+let rec fold_left f l a0 =
+  match l with
+  | [] -> a0
+  | b :: t -> fold_left f t (f a0 b)
+
+(** val existsb : ('a1 -> bool) -> 'a1 list -> bool **)
+
+let rec existsb f = function
+| [] -> false
+| a :: l0 -> (||) (f a) (existsb f l0)
+
+(** val forallb : ('a1 -> bool) -> 'a1 list -> bool **)
+
+let rec forallb f = function
+| [] -> true
+| a :: l0 -> (&&) (f a) (forallb f l0)
+
+(** val filter : ('a1 -> bool) -> 'a1 list -> 'a1 list **)
+
+let rec filter f = function
+| [] -> []
+| x :: l0 -> if f x then x :: (filter f l0) else filter f l0
 
 (** val find : ('a1 -> bool) -> 'a1 list -> 'a1 option **)
 
@@ -532,6 +584,12 @@ let rec lenN_acc l acc =
 let lenN l =
   lenN_acc l N0
 
+(** val glen : 'a1 list -> n **)
+
+let rec glen = function
+| [] -> N0
+| _ :: t -> N.succ (glen t)
+
 (** val takeN : n -> 'a1 list -> 'a1 list **)
 
 let rec takeN n0 = function
@@ -543,6 +601,28 @@ let rec takeN n0 = function
 let rec dropN n0 l = match l with
 | [] -> []
 | _ :: t -> if N.eqb n0 N0 then l else dropN (N.pred n0) t
+
+(** val sliceN : n -> n -> 'a1 list -> 'a1 list **)
+
+let sliceN off len l =
+  takeN len (dropN off l)
+
+(** val repeatN_fuel : nat -> 'a1 -> 'a1 list **)
+
+let rec repeatN_fuel fuel x =
+  match fuel with
+  | O -> []
+  | S f -> x :: (repeatN_fuel f x)
+
+(** val zerosN : n -> bytes **)
+
+let zerosN n0 =
+  repeatN_fuel (N.to_nat n0) N0
+
+(** val overwrite : bytes -> n -> bytes -> bytes **)
+
+let overwrite l off d =
+  app (takeN off l) (app d (dropN (N.add off (lenN d)) l))
 
 (** val u16_be : n -> bytes **)
 
@@ -571,6 +651,18 @@ let u32_be v =
                                                                     (XO
                                                                     XH)))))))))) :: (
     (N.modulo v (Npos (XO (XO (XO (XO (XO (XO (XO (XO XH)))))))))) :: [])))
+
+(** val list_eqb : bytes -> bytes -> bool **)
+
+let rec list_eqb a b =
+  match a with
+  | [] -> (match b with
+           | [] -> true
+           | _ :: _ -> false)
+  | x :: a' ->
+    (match b with
+     | [] -> false
+     | y :: b' -> (&&) (N.eqb x y) (list_eqb a' b'))
 
 (** val sumN : n list -> n **)
 
@@ -1201,10 +1293,25 @@ let rec props_iter_fuel fuel l =
 let props_iter_encoded l =
   props_iter_fuel (length l) l
 
+(** val props_iter : properties -> prop option list **)
+
+let props_iter = function
+| PSlice l -> map (fun x -> Some x) l
+| PEncoded b -> props_iter_encoded b
+| PWithCorr (c, l) -> (Some c) :: (map (fun x -> Some x) l)
+
+(** val props_valid_for : properties -> pctx -> bool **)
+
+let props_valid_for ps c =
+  forallb (fun it ->
+    match it with
+    | Some p -> is_valid_for p c
+    | None -> false) (props_iter ps)
+
 type serr =
 | EMem
 | ECustom
-| EPayload
+| EPay
 
 type sres =
 | SOk of n * bytes
@@ -1256,7 +1363,7 @@ let encode_chunks_payload cap typ flags cs payload =
   | SOk (idx, body) ->
     let start = N.min idx cap in
     if N.ltb (N.sub cap start) (lenN payload)
-    then SErr EPayload
+    then SErr EPay
     else if N.ltb (sat_sub cap idx) (lenN payload)
          then SErr EMem
          else finalize cap (N.add idx (lenN payload)) (app body payload) typ
@@ -1325,6 +1432,11 @@ let rc_known b =
 let rc_norm b =
   if rc_known b then b else Npos (XI (XI (XI (XI (XI (XI (XI XH)))))))
 
+(** val rc_success : n -> bool **)
+
+let rc_success b =
+  N.ltb b (Npos (XO (XO (XO (XO (XO (XO (XO XH))))))))
+
 type qos =
 | Q0
 | Q1
@@ -1345,6 +1457,11 @@ let qos_of_n n0 =
   else if N.eqb n0 (Npos XH)
        then Some Q1
        else if N.eqb n0 (Npos (XO XH)) then Some Q2 else None
+
+(** val qos_ltb : qos -> qos -> bool **)
+
+let qos_ltb a b =
+  N.ltb (qos_n a) (qos_n b)
 
 type will = { w_topic : bytes; w_data : bytes; w_qos : qos; w_retain : 
               bool; w_props : prop list }
@@ -1789,6 +1906,1174 @@ let take_packet r =
   match r.rplen with
   | Some pl -> Some (((reader_reset r), pl), (from_buffer (takeN pl r.rdata)))
   | None -> None
+
+(** val mAX_RETAINED : n **)
+
+let mAX_RETAINED =
+  Npos (XO (XO (XO XH)))
+
+(** val mAX_PENDING_CONTROL : n **)
+
+let mAX_PENDING_CONTROL =
+  Npos (XO (XO (XO XH)))
+
+(** val mAX_PENDING_RELEASE : n **)
+
+let mAX_PENDING_RELEASE =
+  Npos (XO (XO (XO XH)))
+
+(** val cONTROL_PACKET_LEN : n **)
+
+let cONTROL_PACKET_LEN =
+  Npos (XI (XO (XO XH)))
+
+(** val mAX_FIXED_HEADER_SIZE : n **)
+
+let mAX_FIXED_HEADER_SIZE =
+  Npos (XI (XO XH))
+
+type sstate =
+| SWrite of n
+| SFlush
+| SSent
+
+(** val sstate_eqb : sstate -> sstate -> bool **)
+
+let sstate_eqb a b =
+  match a with
+  | SWrite x -> (match b with
+                 | SWrite y -> N.eqb x y
+                 | _ -> false)
+  | SFlush -> (match b with
+               | SFlush -> true
+               | _ -> false)
+  | SSent -> (match b with
+              | SSent -> true
+              | _ -> false)
+
+(** val is_fresh : sstate -> bool **)
+
+let is_fresh = function
+| SWrite w -> N.eqb w N0
+| _ -> false
+
+(** val is_in_progress : sstate -> bool **)
+
+let is_in_progress = function
+| SWrite w -> negb (N.eqb w N0)
+| SFlush -> true
+| SSent -> false
+
+(** val set_written_state : n -> n -> sstate **)
+
+let set_written_state written len =
+  if N.leb len written then SFlush else SWrite written
+
+(** val matches_priority : sstate -> bool -> bool **)
+
+let matches_priority s = function
+| true -> is_in_progress s
+| false -> is_fresh s
+
+type caction =
+| CPubAck of n * n
+| CPubRec of n * n
+| CPubComp of n * n
+| CPing
+
+(** val caction_eqb : caction -> caction -> bool **)
+
+let caction_eqb a b =
+  match a with
+  | CPubAck (p, r) ->
+    (match b with
+     | CPubAck (p', r') -> (&&) (N.eqb p p') (N.eqb r r')
+     | _ -> false)
+  | CPubRec (p, r) ->
+    (match b with
+     | CPubRec (p', r') -> (&&) (N.eqb p p') (N.eqb r r')
+     | _ -> false)
+  | CPubComp (p, r) ->
+    (match b with
+     | CPubComp (p', r') -> (&&) (N.eqb p p') (N.eqb r r')
+     | _ -> false)
+  | CPing -> (match b with
+              | CPing -> true
+              | _ -> false)
+
+type centry = { ce_act : caction; ce_st : sstate }
+
+type lentry = { le_pid : n; le_rc : n; le_st : sstate }
+
+type rentry = { re_pid : n; re_off : n; re_len : n; re_st : sstate }
+
+type outbound = { ob_buf : bytes; ob_used : n; ob_ctl : centry list;
+                  ob_ret : rentry list; ob_rel : lentry list }
+
+(** val ob_cap : outbound -> n **)
+
+let ob_cap o =
+  lenN o.ob_buf
+
+(** val ob_new : n -> outbound **)
+
+let ob_new cap =
+  { ob_buf = (zerosN cap); ob_used = N0; ob_ctl = []; ob_ret = []; ob_rel =
+    [] }
+
+(** val ob_clear : outbound -> outbound **)
+
+let ob_clear o =
+  { ob_buf = o.ob_buf; ob_used = N0; ob_ctl = []; ob_ret = []; ob_rel = [] }
+
+(** val has_pending_state : outbound -> bool **)
+
+let has_pending_state o =
+  (||)
+    ((||) (negb (match o.ob_ctl with
+                 | [] -> true
+                 | _ :: _ -> false))
+      (negb (match o.ob_ret with
+             | [] -> true
+             | _ :: _ -> false)))
+    (negb (match o.ob_rel with
+           | [] -> true
+           | _ :: _ -> false))
+
+(** val is_quiescent : outbound -> bool **)
+
+let is_quiescent o =
+  negb (has_pending_state o)
+
+(** val retained_full : outbound -> bool **)
+
+let retained_full o =
+  N.leb mAX_RETAINED (glen o.ob_ret)
+
+(** val used_after_compact : outbound -> n **)
+
+let used_after_compact o =
+  sumN (map (fun r -> r.re_len) o.ob_ret)
+
+(** val scratch_len : outbound -> n **)
+
+let scratch_len o =
+  N.sub (ob_cap o) (used_after_compact o)
+
+(** val can_retain : outbound -> bool **)
+
+let can_retain o =
+  (&&) (N.ltb (glen o.ob_ret) mAX_RETAINED)
+    (N.leb mAX_FIXED_HEADER_SIZE (scratch_len o))
+
+(** val compact_go :
+    bytes -> n -> rentry list -> (bytes * rentry list) * n **)
+
+let rec compact_go buf cursor = function
+| [] -> ((buf, []), cursor)
+| e :: t ->
+  let buf' =
+    if N.eqb e.re_off cursor
+    then buf
+    else overwrite buf cursor (sliceN e.re_off e.re_len buf)
+  in
+  let e' = { re_pid = e.re_pid; re_off = cursor; re_len = e.re_len; re_st =
+    e.re_st }
+  in
+  let (p, c2) = compact_go buf' (N.add cursor e.re_len) t in
+  let (b2, t') = p in ((b2, (e' :: t')), c2)
+
+(** val compact : outbound -> outbound **)
+
+let compact o =
+  let (p, c) = compact_go o.ob_buf N0 o.ob_ret in
+  let (b, es) = p in
+  { ob_buf = b; ob_used = c; ob_ctl = o.ob_ctl; ob_ret = es; ob_rel =
+  o.ob_rel }
+
+(** val queue_control : outbound -> caction -> outbound option **)
+
+let queue_control o a =
+  if N.leb mAX_PENDING_CONTROL (glen o.ob_ctl)
+  then None
+  else Some { ob_buf = o.ob_buf; ob_used = o.ob_used; ob_ctl =
+         (app o.ob_ctl ({ ce_act = a; ce_st = (SWrite N0) } :: [])); ob_ret =
+         o.ob_ret; ob_rel = o.ob_rel }
+
+(** val has_pending_pingreq : outbound -> bool **)
+
+let has_pending_pingreq o =
+  existsb (fun e ->
+    match e.ce_act with
+    | CPing -> negb (sstate_eqb e.ce_st SSent)
+    | _ -> false) o.ob_ctl
+
+(** val remove_first_ret : n -> rentry list -> rentry list option **)
+
+let rec remove_first_ret pid = function
+| [] -> None
+| e :: t ->
+  if N.eqb e.re_pid pid
+  then Some t
+  else (match remove_first_ret pid t with
+        | Some t' -> Some (e :: t')
+        | None -> None)
+
+(** val ack_packet : outbound -> n -> outbound * bool **)
+
+let ack_packet o pid =
+  match remove_first_ret pid o.ob_ret with
+  | Some es ->
+    ((compact { ob_buf = o.ob_buf; ob_used = o.ob_used; ob_ctl = o.ob_ctl;
+       ob_ret = es; ob_rel = o.ob_rel }), true)
+  | None -> (o, false)
+
+(** val has_retained : outbound -> n -> bool **)
+
+let has_retained o pid =
+  existsb (fun e -> N.eqb e.re_pid pid) o.ob_ret
+
+(** val queue_release : outbound -> n -> n -> outbound option **)
+
+let queue_release o pid rc =
+  if N.leb mAX_PENDING_RELEASE (glen o.ob_rel)
+  then None
+  else Some { ob_buf = o.ob_buf; ob_used = o.ob_used; ob_ctl = o.ob_ctl;
+         ob_ret = o.ob_ret; ob_rel =
+         (app o.ob_rel ({ le_pid = pid; le_rc = rc; le_st = (SWrite
+           N0) } :: [])) }
+
+(** val swap_remove_rel : n -> lentry list -> lentry list option **)
+
+let rec swap_remove_rel pid = function
+| [] -> None
+| e :: t ->
+  if N.eqb e.le_pid pid
+  then (match rev t with
+        | [] -> Some []
+        | lst :: rinit -> Some (lst :: (rev rinit)))
+  else (match swap_remove_rel pid t with
+        | Some t' -> Some (e :: t')
+        | None -> None)
+
+(** val ack_release : outbound -> n -> outbound * bool **)
+
+let ack_release o pid =
+  match swap_remove_rel pid o.ob_rel with
+  | Some es ->
+    ({ ob_buf = o.ob_buf; ob_used = o.ob_used; ob_ctl = o.ob_ctl; ob_ret =
+      o.ob_ret; ob_rel = es }, true)
+  | None -> (o, false)
+
+(** val has_pending_release : outbound -> n -> bool **)
+
+let has_pending_release o pid =
+  existsb (fun e -> N.eqb e.le_pid pid) o.ob_rel
+
+(** val set_bit3 : n -> n **)
+
+let set_bit3 b =
+  if N.testbit b (Npos (XI XH)) then b else N.add b (Npos (XO (XO (XO XH))))
+
+(** val poke_dup : bytes -> n -> bytes **)
+
+let poke_dup buf off =
+  app (takeN off buf)
+    (match dropN off buf with
+     | [] -> []
+     | b :: t -> (set_bit3 b) :: t)
+
+(** val mark_retained_dup : outbound -> outbound **)
+
+let mark_retained_dup o =
+  { ob_buf = (fold_left (fun b e -> poke_dup b e.re_off) o.ob_ret o.ob_buf);
+    ob_used = o.ob_used; ob_ctl = o.ob_ctl; ob_ret = o.ob_ret; ob_rel =
+    o.ob_rel }
+
+type eres =
+| EOk of n * n
+| EErr of serr
+
+(** val encode_at : outbound -> (n -> sres) -> outbound * eres **)
+
+let encode_at o enc =
+  let o1 = compact o in
+  let start = o1.ob_used in
+  (match enc (N.sub (ob_cap o1) start) with
+   | SOk (off, bs) ->
+     ({ ob_buf = (overwrite o1.ob_buf (N.add start off) bs); ob_used =
+       o1.ob_used; ob_ctl = o1.ob_ctl; ob_ret = o1.ob_ret; ob_rel =
+       o1.ob_rel }, (EOk ((N.add start off), (lenN bs))))
+   | SErr e -> (o1, (EErr e)))
+
+(** val retained_packet : outbound -> n -> n -> bytes **)
+
+let retained_packet o off len =
+  sliceN off len o.ob_buf
+
+(** val retain_packet : outbound -> n -> n -> n -> outbound option **)
+
+let retain_packet o pid off len =
+  if N.leb mAX_RETAINED (glen o.ob_ret)
+  then None
+  else Some { ob_buf = o.ob_buf; ob_used = (N.max o.ob_used (N.add off len));
+         ob_ctl = o.ob_ctl; ob_ret =
+         (app o.ob_ret ({ re_pid = pid; re_off = off; re_len = len; re_st =
+           (SWrite N0) } :: [])); ob_rel = o.ob_rel }
+
+type ostep =
+| StCtl of caction * sstate
+| StRel of n * n * sstate
+| StRet of n * n * n * sstate
+
+(** val find_ctl : bool -> centry list -> ostep option **)
+
+let find_ctl p l =
+  match find (fun e -> matches_priority e.ce_st p) l with
+  | Some e -> Some (StCtl (e.ce_act, e.ce_st))
+  | None -> None
+
+(** val find_rel : bool -> lentry list -> ostep option **)
+
+let find_rel p l =
+  match find (fun e -> matches_priority e.le_st p) l with
+  | Some e -> Some (StRel (e.le_pid, e.le_rc, e.le_st))
+  | None -> None
+
+(** val find_ret : bool -> rentry list -> ostep option **)
+
+let find_ret p l =
+  match find (fun e -> matches_priority e.re_st p) l with
+  | Some e -> Some (StRet (e.re_pid, e.re_off, e.re_len, e.re_st))
+  | None -> None
+
+(** val orelse : 'a1 option -> 'a1 option -> 'a1 option **)
+
+let orelse a b =
+  match a with
+  | Some _ -> a
+  | None -> b
+
+(** val next_step_pass : outbound -> bool -> ostep option **)
+
+let next_step_pass o p =
+  orelse (find_ctl p o.ob_ctl)
+    (orelse (find_rel p o.ob_rel) (find_ret p o.ob_ret))
+
+(** val next_step : outbound -> ostep option **)
+
+let next_step o =
+  orelse (next_step_pass o true) (next_step_pass o false)
+
+(** val update_first :
+    ('a1 -> bool) -> ('a1 -> 'a1) -> 'a1 list -> 'a1 list * bool **)
+
+let rec update_first p f = function
+| [] -> ([], false)
+| x :: t ->
+  if p x
+  then (((f x) :: t), true)
+  else let (t', b) = update_first p f t in ((x :: t'), b)
+
+(** val with_ctl : outbound -> centry list -> outbound **)
+
+let with_ctl o l =
+  { ob_buf = o.ob_buf; ob_used = o.ob_used; ob_ctl = l; ob_ret = o.ob_ret;
+    ob_rel = o.ob_rel }
+
+(** val with_ret : outbound -> rentry list -> outbound **)
+
+let with_ret o l =
+  { ob_buf = o.ob_buf; ob_used = o.ob_used; ob_ctl = o.ob_ctl; ob_ret = l;
+    ob_rel = o.ob_rel }
+
+(** val with_rel : outbound -> lentry list -> outbound **)
+
+let with_rel o l =
+  { ob_buf = o.ob_buf; ob_used = o.ob_used; ob_ctl = o.ob_ctl; ob_ret =
+    o.ob_ret; ob_rel = l }
+
+(** val set_control_written :
+    outbound -> caction -> n -> n -> outbound * bool **)
+
+let set_control_written o a written len =
+  let (l, b) =
+    update_first (fun e -> caction_eqb e.ce_act a) (fun e -> { ce_act =
+      e.ce_act; ce_st = (set_written_state written len) }) o.ob_ctl
+  in
+  ((with_ctl o l), b)
+
+(** val flush_control : outbound -> caction -> outbound * bool **)
+
+let flush_control o a =
+  let (l, b) =
+    update_first (fun e -> caction_eqb e.ce_act a) (fun e -> { ce_act =
+      e.ce_act; ce_st = SSent }) o.ob_ctl
+  in
+  ((with_ctl o (filter (fun e -> negb (sstate_eqb e.ce_st SSent)) l)), b)
+
+(** val set_retained_written : outbound -> n -> n -> n -> outbound * bool **)
+
+let set_retained_written o pid written len =
+  let (l, b) =
+    update_first (fun e -> N.eqb e.re_pid pid) (fun e -> { re_pid = e.re_pid;
+      re_off = e.re_off; re_len = e.re_len; re_st =
+      (set_written_state written len) }) o.ob_ret
+  in
+  ((with_ret o l), b)
+
+(** val flush_retained : outbound -> n -> outbound * bool **)
+
+let flush_retained o pid =
+  let (l, b) =
+    update_first (fun e -> N.eqb e.re_pid pid) (fun e -> { re_pid = e.re_pid;
+      re_off = e.re_off; re_len = e.re_len; re_st = SSent }) o.ob_ret
+  in
+  ((with_ret o l), b)
+
+(** val set_release_written : outbound -> n -> n -> n -> outbound * bool **)
+
+let set_release_written o pid written len =
+  let (l, b) =
+    update_first (fun e -> N.eqb e.le_pid pid) (fun e -> { le_pid = e.le_pid;
+      le_rc = e.le_rc; le_st = (set_written_state written len) }) o.ob_rel
+  in
+  ((with_rel o l), b)
+
+(** val flush_release : outbound -> n -> outbound * bool **)
+
+let flush_release o pid =
+  let (l, b) =
+    update_first (fun e -> N.eqb e.le_pid pid) (fun e -> { le_pid = e.le_pid;
+      le_rc = e.le_rc; le_st = SSent }) o.ob_rel
+  in
+  ((with_rel o l), b)
+
+(** val arm_replay : outbound -> outbound **)
+
+let arm_replay o =
+  if negb (has_pending_state o)
+  then o
+  else let o1 = mark_retained_dup o in
+       { ob_buf = o1.ob_buf; ob_used = o1.ob_used; ob_ctl =
+       (map (fun e -> { ce_act = e.ce_act; ce_st = (SWrite N0) }) o1.ob_ctl);
+       ob_ret =
+       (map (fun e -> { re_pid = e.re_pid; re_off = e.re_off; re_len =
+         e.re_len; re_st = (SWrite N0) }) o1.ob_ret); ob_rel =
+       (map (fun e -> { le_pid = e.le_pid; le_rc = e.le_rc; le_st = (SWrite
+         N0) }) o1.ob_rel) }
+
+(** val encode_control_packet : caction -> sres **)
+
+let encode_control_packet = function
+| CPubAck (pid, rc) -> enc_ack cONTROL_PACKET_LEN (Npos (XO (XO XH))) pid rc
+| CPubRec (pid, rc) -> enc_ack cONTROL_PACKET_LEN (Npos (XI (XO XH))) pid rc
+| CPubComp (pid, rc) -> enc_ack cONTROL_PACKET_LEN (Npos (XI (XI XH))) pid rc
+| CPing -> enc_pingreq cONTROL_PACKET_LEN
+
+(** val encode_pubrel : n -> n -> sres **)
+
+let encode_pubrel pid rc =
+  enc_ack cONTROL_PACKET_LEN (Npos (XO (XI XH))) pid rc
+
+(** val too_large : n option -> n -> bool **)
+
+let too_large mps len =
+  match mps with
+  | Some m -> N.ltb m len
+  | None -> false
+
+(** val rOUND_TRIP_TIMEOUT_MS : n **)
+
+let rOUND_TRIP_TIMEOUT_MS =
+  Npos (XO (XO (XO (XI (XO (XO (XO (XI (XI (XI (XO (XO XH))))))))))))
+
+(** val mAX_INBOUND_QOS2 : n **)
+
+let mAX_INBOUND_QOS2 =
+  Npos (XO (XO (XO XH)))
+
+type err =
+| ENotReady
+| EDisconnected
+| EInvalidRequest
+| ERejected of n
+| EInvalidPacket
+| EBufferTooSmall
+| EPacketTooLarge
+| EInflightExhausted
+| ETransport
+| EWriteZero
+| EPayload
+
+(** val err_of_serr : serr -> err **)
+
+let err_of_serr = function
+| EMem -> EBufferTooSmall
+| ECustom -> EInvalidRequest
+| EPay -> EPayload
+
+type runtime = { rt_resumed : bool; rt_ka_ms : n; rt_quota : n;
+                 rt_maxquota : n; rt_mps : n option; rt_maxqos : qos option;
+                 rt_next_ping : n option; rt_ping_timeout : n option }
+
+type config = { cf_rx : n; cf_tx : n; cf_client_id : bytes;
+                cf_keepalive_s : n; cf_expiry : n; cf_downgrade : bool;
+                cf_will : will option; cf_auth : auth option }
+
+type session = { s_cfg : config; s_client_id : bytes; s_reader : reader;
+                 s_ob : outbound; s_pid : n; s_gen : n; s_sp : bool;
+                 s_srv : n list; s_rt : runtime }
+
+(** val rt_new : n -> runtime **)
+
+let rt_new ka_ms =
+  { rt_resumed = false; rt_ka_ms = ka_ms; rt_quota = (Npos (XI (XI (XI (XI
+    (XI (XI (XI (XI (XI (XI (XI (XI (XI (XI (XI XH))))))))))))))));
+    rt_maxquota = (Npos (XI (XI (XI (XI (XI (XI (XI (XI (XI (XI (XI (XI (XI
+    (XI (XI XH)))))))))))))))); rt_mps = None; rt_maxqos = None;
+    rt_next_ping = None; rt_ping_timeout = None }
+
+(** val session_new : config -> session **)
+
+let session_new c =
+  { s_cfg = c; s_client_id = c.cf_client_id; s_reader = (reader_new c.cf_rx);
+    s_ob = (ob_new c.cf_tx); s_pid = (Npos XH); s_gen = N0; s_sp = false;
+    s_srv = []; s_rt =
+    (rt_new
+      (N.mul c.cf_keepalive_s (Npos (XO (XO (XO (XI (XO (XI (XI (XI (XI
+        XH)))))))))))) }
+
+(** val set_rt : session -> runtime -> session **)
+
+let set_rt s r =
+  { s_cfg = s.s_cfg; s_client_id = s.s_client_id; s_reader = s.s_reader;
+    s_ob = s.s_ob; s_pid = s.s_pid; s_gen = s.s_gen; s_sp = s.s_sp; s_srv =
+    s.s_srv; s_rt = r }
+
+(** val set_ob : session -> outbound -> session **)
+
+let set_ob s o =
+  { s_cfg = s.s_cfg; s_client_id = s.s_client_id; s_reader = s.s_reader;
+    s_ob = o; s_pid = s.s_pid; s_gen = s.s_gen; s_sp = s.s_sp; s_srv =
+    s.s_srv; s_rt = s.s_rt }
+
+(** val set_reader : session -> reader -> session **)
+
+let set_reader s r =
+  { s_cfg = s.s_cfg; s_client_id = s.s_client_id; s_reader = r; s_ob =
+    s.s_ob; s_pid = s.s_pid; s_gen = s.s_gen; s_sp = s.s_sp; s_srv = s.s_srv;
+    s_rt = s.s_rt }
+
+(** val set_srv : session -> n list -> session **)
+
+let set_srv s l =
+  { s_cfg = s.s_cfg; s_client_id = s.s_client_id; s_reader = s.s_reader;
+    s_ob = s.s_ob; s_pid = s.s_pid; s_gen = s.s_gen; s_sp = s.s_sp; s_srv =
+    l; s_rt = s.s_rt }
+
+(** val rt_with_timers : runtime -> n option -> n option -> runtime **)
+
+let rt_with_timers r np pt =
+  { rt_resumed = r.rt_resumed; rt_ka_ms = r.rt_ka_ms; rt_quota = r.rt_quota;
+    rt_maxquota = r.rt_maxquota; rt_mps = r.rt_mps; rt_maxqos = r.rt_maxqos;
+    rt_next_ping = np; rt_ping_timeout = pt }
+
+(** val rt_with_quota : runtime -> n -> runtime **)
+
+let rt_with_quota r q =
+  { rt_resumed = r.rt_resumed; rt_ka_ms = r.rt_ka_ms; rt_quota = q;
+    rt_maxquota = r.rt_maxquota; rt_mps = r.rt_mps; rt_maxqos = r.rt_maxqos;
+    rt_next_ping = r.rt_next_ping; rt_ping_timeout = r.rt_ping_timeout }
+
+(** val reset_transport : runtime -> runtime **)
+
+let reset_transport r =
+  { rt_resumed = false; rt_ka_ms = r.rt_ka_ms; rt_quota = r.rt_quota;
+    rt_maxquota = r.rt_maxquota; rt_mps = r.rt_mps; rt_maxqos = r.rt_maxqos;
+    rt_next_ping = None; rt_ping_timeout = None }
+
+(** val keepalive_send_interval : runtime -> n option **)
+
+let keepalive_send_interval r =
+  if N.eqb r.rt_ka_ms N0
+  then None
+  else Some
+         (N.sub r.rt_ka_ms
+           (N.min rOUND_TRIP_TIMEOUT_MS (N.div r.rt_ka_ms (Npos (XO XH)))))
+
+(** val note_outbound_activity : runtime -> n -> runtime **)
+
+let note_outbound_activity r now =
+  rt_with_timers r
+    (match keepalive_send_interval r with
+     | Some i -> Some (N.add now i)
+     | None -> None) r.rt_ping_timeout
+
+(** val next_deadline : runtime -> n option **)
+
+let next_deadline r =
+  match r.rt_next_ping with
+  | Some a ->
+    (match r.rt_ping_timeout with
+     | Some b -> Some (N.min a b)
+     | None -> Some a)
+  | None -> r.rt_ping_timeout
+
+(** val quota_inc : runtime -> runtime **)
+
+let quota_inc r =
+  rt_with_quota r
+    (N.min
+      (N.min (N.add r.rt_quota (Npos XH)) (Npos (XI (XI (XI (XI (XI (XI (XI
+        (XI (XI (XI (XI (XI (XI (XI (XI XH))))))))))))))))) r.rt_maxquota)
+
+(** val data_reset : session -> session **)
+
+let data_reset s =
+  { s_cfg = s.s_cfg; s_client_id = s.s_client_id; s_reader = s.s_reader;
+    s_ob = (ob_clear s.s_ob); s_pid = (Npos XH); s_gen =
+    (N.modulo (N.add s.s_gen (Npos XH)) (Npos (XO (XO (XO (XO (XO (XO (XO (XO
+      (XO (XO (XO (XO (XO (XO (XO (XO (XO (XO (XO (XO (XO (XO (XO (XO (XO (XO
+      (XO (XO (XO (XO (XO (XO XH)))))))))))))))))))))))))))))))))); s_sp =
+    false; s_srv = []; s_rt = s.s_rt }
+
+(** val next_packet_id : session -> session * n **)
+
+let next_packet_id s =
+  let id = s.s_pid in
+  let nxt =
+    if N.eqb id (Npos (XI (XI (XI (XI (XI (XI (XI (XI (XI (XI (XI (XI (XI (XI
+         (XI XH))))))))))))))))
+    then Npos XH
+    else N.add id (Npos XH)
+  in
+  ({ s_cfg = s.s_cfg; s_client_id = s.s_client_id; s_reader = s.s_reader;
+  s_ob = s.s_ob; s_pid = nxt; s_gen = s.s_gen; s_sp = s.s_sp; s_srv =
+  s.s_srv; s_rt = s.s_rt }, id)
+
+(** val sess_handle_disconnect : session -> session **)
+
+let sess_handle_disconnect s =
+  set_reader (set_rt (set_ob s (arm_replay s.s_ob)) (reset_transport s.s_rt))
+    (reader_reset s.s_reader)
+
+(** val sess_can_publish : session -> qos -> bool **)
+
+let sess_can_publish s = function
+| Q0 -> N.leb mAX_FIXED_HEADER_SIZE (scratch_len s.s_ob)
+| _ -> (&&) (negb (N.eqb s.s_rt.rt_quota N0)) (can_retain s.s_ob)
+
+type op = { op_kind : n; op_pid : n; op_gen : n }
+
+type opstatus =
+| StPending
+| StComplete
+| StInvalidated
+
+(** val status : session -> op -> opstatus **)
+
+let status s o =
+  if negb (N.eqb o.op_gen s.s_gen)
+  then StInvalidated
+  else let pending =
+         if N.eqb o.op_kind (Npos XH)
+         then (||) (has_retained s.s_ob o.op_pid)
+                (has_pending_release s.s_ob o.op_pid)
+         else has_retained s.s_ob o.op_pid
+       in
+       if pending then StPending else StComplete
+
+type hres =
+| HOk of bool
+| HErr of err
+
+(** val all_success : bytes -> n option **)
+
+let all_success codes =
+  match find (fun c -> negb (rc_success (rc_norm c))) codes with
+  | Some c -> Some (rc_norm c)
+  | None -> None
+
+(** val check_control_size : n option -> caction -> err option **)
+
+let check_control_size mps a =
+  match encode_control_packet a with
+  | SOk (_, b) ->
+    if too_large mps (lenN b) then Some EPacketTooLarge else None
+  | SErr e -> Some (err_of_serr e)
+
+(** val check_pubrel_size : n option -> n -> n -> err option **)
+
+let check_pubrel_size mps pid rc =
+  match encode_pubrel pid rc with
+  | SOk (_, b) ->
+    if too_large mps (lenN b) then Some EPacketTooLarge else None
+  | SErr e -> Some (err_of_serr e)
+
+(** val queue_ctl_checked : session -> caction -> bool -> session * hres **)
+
+let queue_ctl_checked s a deliver0 =
+  match check_control_size s.s_rt.rt_mps a with
+  | Some e -> (s, (HErr e))
+  | None ->
+    (match queue_control s.s_ob a with
+     | Some o -> ((set_ob s o), (HOk deliver0))
+     | None -> (s, (HErr EInflightExhausted)))
+
+(** val swap_remove_id : n -> n list -> n list option **)
+
+let rec swap_remove_id id = function
+| [] -> None
+| x :: t ->
+  if N.eqb x id
+  then (match rev t with
+        | [] -> Some []
+        | lst :: rinit -> Some (lst :: (rev rinit)))
+  else (match swap_remove_id id t with
+        | Some t' -> Some (x :: t')
+        | None -> None)
+
+(** val mem_id : n -> n list -> bool **)
+
+let mem_id id l =
+  existsb (N.eqb id) l
+
+(** val handle_packet : session -> rpacket -> session * hres **)
+
+let handle_packet s = function
+| RConnAck (_, _, _) -> (s, (HErr EInvalidPacket))
+| RPublish (_, pid, q, _, _, _, _) ->
+  (match q with
+   | Q0 -> (s, (HOk true))
+   | Q1 ->
+     (match pid with
+      | Some id ->
+        let reason =
+          if mem_id id s.s_srv
+          then Npos (XI (XO (XO (XO (XI (XO (XO XH)))))))
+          else N0
+        in
+        queue_ctl_checked s (CPubAck (id, reason)) true
+      | None -> (s, (HErr EInvalidPacket)))
+   | Q2 ->
+     (match pid with
+      | Some id ->
+        let duplicate = mem_id id s.s_srv in
+        if duplicate
+        then let reason = N0 in
+             queue_ctl_checked s (CPubRec (id, reason))
+               (negb ((||) duplicate (negb (rc_success reason))))
+        else if N.leb mAX_INBOUND_QOS2 (glen s.s_srv)
+             then let reason = Npos (XI (XI (XO (XO (XI (XO (XO XH))))))) in
+                  queue_ctl_checked s (CPubRec (id, reason))
+                    (negb ((||) duplicate (negb (rc_success reason))))
+             else let s1 = set_srv s (app s.s_srv (id :: [])) in
+                  let reason = N0 in
+                  queue_ctl_checked s1 (CPubRec (id, reason))
+                    (negb ((||) duplicate (negb (rc_success reason))))
+      | None -> (s, (HErr EInvalidPacket))))
+| RPubAck (pid, rc) ->
+  let (o, found) = ack_packet s.s_ob pid in
+  if negb found
+  then (s, (HOk false))
+  else let s1 = set_rt (set_ob s o) (quota_inc s.s_rt) in
+       if rc_success rc
+       then (s1, (HOk false))
+       else (s1, (HErr (ERejected rc)))
+| RPubRec (pid, rc) ->
+  let (o, found) = ack_packet s.s_ob pid in
+  if found
+  then let s1 = set_rt (set_ob s o) (quota_inc s.s_rt) in
+       if negb (rc_success rc)
+       then (s1, (HErr (ERejected rc)))
+       else (match check_pubrel_size s1.s_rt.rt_mps pid N0 with
+             | Some e -> (s1, (HErr e))
+             | None ->
+               (match queue_release s1.s_ob pid N0 with
+                | Some o2 -> ((set_ob s1 o2), (HOk false))
+                | None -> (s1, (HErr EInflightExhausted))))
+  else if has_pending_release s.s_ob pid
+       then if rc_success rc
+            then (s, (HOk false))
+            else (s, (HErr (ERejected rc)))
+       else (s, (HOk false))
+| RPubRel (pid, _) ->
+  (match swap_remove_id pid s.s_srv with
+   | Some l ->
+     let s1 = set_srv s l in
+     let reason = N0 in queue_ctl_checked s1 (CPubComp (pid, reason)) false
+   | None ->
+     let reason = Npos (XO (XI (XO (XO (XI (XO (XO XH))))))) in
+     queue_ctl_checked s (CPubComp (pid, reason)) false)
+| RPubComp (pid, rc) ->
+  let (o, found) = ack_release s.s_ob pid in
+  if negb found
+  then (s, (HOk false))
+  else if rc_success rc
+       then ((set_ob s o), (HOk false))
+       else ((set_ob s o), (HErr (ERejected rc)))
+| RSubAck (pid, _, codes) ->
+  let (o, found) = ack_packet s.s_ob pid in
+  if negb found
+  then (s, (HOk false))
+  else (match all_success codes with
+        | Some c -> ((set_ob s o), (HErr (ERejected c)))
+        | None -> ((set_ob s o), (HOk false)))
+| RUnsubAck (pid, _, codes) ->
+  let (o, found) = ack_packet s.s_ob pid in
+  if negb found
+  then (s, (HOk false))
+  else (match all_success codes with
+        | Some c -> ((set_ob s o), (HErr (ERejected c)))
+        | None -> ((set_ob s o), (HOk false)))
+| RDisconnect (_, _) -> (s, (HErr EDisconnected))
+| RPingResp ->
+  ((set_rt s (rt_with_timers s.s_rt s.s_rt.rt_next_ping None)), (HOk false))
+
+(** val connect_request : session -> connect_req **)
+
+let connect_request s =
+  { cq_keepalive =
+    (N.modulo
+      (N.div s.s_rt.rt_ka_ms (Npos (XO (XO (XO (XI (XO (XI (XI (XI (XI
+        XH))))))))))) (Npos (XO (XO (XO (XO (XO (XO (XO (XO (XO (XO (XO (XO
+      (XO (XO (XO (XO XH)))))))))))))))))); cq_props =
+    ((mkprop KMaximumPacketSize
+       (N.modulo s.s_reader.rcap (Npos (XO (XO (XO (XO (XO (XO (XO (XO (XO
+         (XO (XO (XO (XO (XO (XO (XO (XO (XO (XO (XO (XO (XO (XO (XO (XO (XO
+         (XO (XO (XO (XO (XO (XO XH)))))))))))))))))))))))))))))))))) [] []) :: (
+    (mkprop KSessionExpiryInterval s.s_cfg.cf_expiry [] []) :: ((mkprop
+                                                                  KReceiveMaximum
+                                                                  mAX_INBOUND_QOS2
+                                                                  [] []) :: [])));
+    cq_client_id = s.s_client_id; cq_auth = s.s_cfg.cf_auth; cq_will =
+    s.s_cfg.cf_will; cq_clean = (negb s.s_sp) }
+
+type connack_acc = { ca_quota : n; ca_maxquota : n; ca_maxqos : qos option;
+                     ca_mps : n option; ca_ka_ms : n; ca_cid : bytes option }
+
+(** val connack_props :
+    prop option list -> n -> connack_acc -> connack_acc option **)
+
+let rec connack_props its local_quota a =
+  match its with
+  | [] -> Some a
+  | o :: t ->
+    (match o with
+     | Some p ->
+       let upd = fun a' -> connack_props t local_quota a' in
+       (match p.pk with
+        | KAssignedClientIdentifier ->
+          if N.ltb (Npos (XO (XO (XO (XO (XO (XO XH))))))) (lenN p.pdata)
+          then None
+          else upd { ca_quota = a.ca_quota; ca_maxquota = a.ca_maxquota;
+                 ca_maxqos = a.ca_maxqos; ca_mps = a.ca_mps; ca_ka_ms =
+                 a.ca_ka_ms; ca_cid = (Some p.pdata) }
+        | KServerKeepAlive ->
+          upd { ca_quota = a.ca_quota; ca_maxquota = a.ca_maxquota;
+            ca_maxqos = a.ca_maxqos; ca_mps = a.ca_mps; ca_ka_ms =
+            (N.mul p.pnum (Npos (XO (XO (XO (XI (XO (XI (XI (XI (XI
+              XH))))))))))); ca_cid = a.ca_cid }
+        | KReceiveMaximum ->
+          if N.eqb p.pnum N0
+          then None
+          else upd { ca_quota = (N.min p.pnum local_quota); ca_maxquota =
+                 (N.min p.pnum local_quota); ca_maxqos = a.ca_maxqos;
+                 ca_mps = a.ca_mps; ca_ka_ms = a.ca_ka_ms; ca_cid = a.ca_cid }
+        | KMaximumQoS ->
+          (match qos_of_n p.pnum with
+           | Some q ->
+             upd { ca_quota = a.ca_quota; ca_maxquota = a.ca_maxquota;
+               ca_maxqos = (Some q); ca_mps = a.ca_mps; ca_ka_ms =
+               a.ca_ka_ms; ca_cid = a.ca_cid }
+           | None -> None)
+        | KMaximumPacketSize ->
+          upd { ca_quota = a.ca_quota; ca_maxquota = a.ca_maxquota;
+            ca_maxqos = a.ca_maxqos; ca_mps = (Some p.pnum); ca_ka_ms =
+            a.ca_ka_ms; ca_cid = a.ca_cid }
+        | _ -> upd a)
+     | None -> None)
+
+type connack_res =
+| CAOk of bool
+| CAErr of err * bool
+
+(** val connack_process :
+    session -> rpacket option -> n -> session * connack_res **)
+
+let connack_process s p now =
+  match p with
+  | Some r ->
+    (match r with
+     | RConnAck (sp, rc, props) ->
+       if negb (rc_success rc)
+       then (s, (CAErr ((ERejected rc), false)))
+       else let s1 = if sp then s else data_reset s in
+            let local_quota = N.min mAX_RETAINED mAX_PENDING_RELEASE in
+            let a0 = { ca_quota = local_quota; ca_maxquota = local_quota;
+              ca_maxqos = None; ca_mps = None; ca_ka_ms = s1.s_rt.rt_ka_ms;
+              ca_cid = None }
+            in
+            (match connack_props (props_iter_encoded props) local_quota a0 with
+             | Some a ->
+               let r0 = { rt_resumed = sp; rt_ka_ms = a.ca_ka_ms; rt_quota =
+                 a.ca_quota; rt_maxquota = a.ca_maxquota; rt_mps = a.ca_mps;
+                 rt_maxqos = a.ca_maxqos; rt_next_ping =
+                 s1.s_rt.rt_next_ping; rt_ping_timeout =
+                 s1.s_rt.rt_ping_timeout }
+               in
+               let r2 =
+                 rt_with_timers (note_outbound_activity r0 now)
+                   (note_outbound_activity r0 now).rt_next_ping None
+               in
+               let s2 = { s_cfg = s1.s_cfg; s_client_id =
+                 (match a.ca_cid with
+                  | Some c -> c
+                  | None -> s1.s_client_id); s_reader = s1.s_reader; s_ob =
+                 s1.s_ob; s_pid = s1.s_pid; s_gen = s1.s_gen; s_sp = true;
+                 s_srv = s1.s_srv; s_rt = r2 }
+               in
+               (s2, (CAOk sp))
+             | None -> (s1, (CAErr (EInvalidPacket, true))))
+     | RDisconnect (_, _) -> (s, (CAErr (EDisconnected, true)))
+     | _ -> (s, (CAErr (EInvalidPacket, true))))
+  | None -> (s, (CAErr (EInvalidPacket, true)))
+
+type pub_req = { pr_topic : bytes; pr_props : properties; pr_qos : qos;
+                 pr_payload : bytes; pr_retain : bool }
+
+type midres =
+| MErr of err
+| MRetained of op
+| MDirect of bytes
+
+(** val effective_qos : session -> qos -> qos **)
+
+let effective_qos s q =
+  match s.s_rt.rt_maxqos with
+  | Some m -> if (&&) s.s_cfg.cf_downgrade (qos_ltb m q) then m else q
+  | None -> q
+
+(** val publish_middle : session -> bool -> pub_req -> session * midres **)
+
+let publish_middle s live r =
+  if negb (props_valid_for r.pr_props CtxPublish)
+  then (s, (MErr EInvalidRequest))
+  else let q = effective_qos s r.pr_qos in
+       (match q with
+        | Q0 ->
+          if negb ((&&) live (sess_can_publish s Q0))
+          then (s, (MErr ENotReady))
+          else let o1 = compact s.s_ob in
+               let s1 = set_ob s o1 in
+               let req = { pq_topic = r.pr_topic; pq_pid = None; pq_props =
+                 r.pr_props; pq_retain = r.pr_retain; pq_qos = Q0; pq_dup =
+                 false; pq_payload = r.pr_payload }
+               in
+               (match enc_publish (N.sub (ob_cap o1) o1.ob_used) req with
+                | SOk (_, bs) ->
+                  if too_large s1.s_rt.rt_mps (lenN bs)
+                  then (s1, (MErr EPacketTooLarge))
+                  else if negb live
+                       then (s1, (MErr EDisconnected))
+                       else (s1, (MDirect bs))
+                | SErr e -> (s1, (MErr (err_of_serr e))))
+        | _ ->
+          let (s1, id) = next_packet_id s in
+          if retained_full s1.s_ob
+          then (s1, (MErr EInflightExhausted))
+          else if negb ((&&) live (sess_can_publish s1 q))
+               then (s1, (MErr ENotReady))
+               else let req = { pq_topic = r.pr_topic; pq_pid = (Some id);
+                      pq_props = r.pr_props; pq_retain = r.pr_retain;
+                      pq_qos = q; pq_dup = false; pq_payload = r.pr_payload }
+                    in
+                    let (o1, er) =
+                      encode_at s1.s_ob (fun cap -> enc_publish cap req)
+                    in
+                    let s2 = set_ob s1 o1 in
+                    (match er with
+                     | EOk (off, len) ->
+                       if too_large s2.s_rt.rt_mps len
+                       then (s2, (MErr EPacketTooLarge))
+                       else (match retain_packet o1 id off len with
+                             | Some o2 ->
+                               let s3 =
+                                 set_rt (set_ob s2 o2)
+                                   (rt_with_quota s2.s_rt
+                                     (N.sub s2.s_rt.rt_quota (Npos XH)))
+                               in
+                               (s3, (MRetained { op_kind =
+                               (match q with
+                                | Q2 -> Npos XH
+                                | _ -> N0); op_pid = id; op_gen = s3.s_gen }))
+                             | None -> (s2, (MErr EInflightExhausted)))
+                     | EErr e -> (s2, (MErr (err_of_serr e)))))
+
+(** val enqueue_middle :
+    session -> n -> (n -> n -> sres) -> session * midres **)
+
+let enqueue_middle s kind enc =
+  if retained_full s.s_ob
+  then (s, (MErr EInflightExhausted))
+  else let (s1, id) = next_packet_id s in
+       let (o1, er) = encode_at s1.s_ob (fun cap -> enc cap id) in
+       let s2 = set_ob s1 o1 in
+       (match er with
+        | EOk (off, len) ->
+          if too_large s2.s_rt.rt_mps len
+          then (s2, (MErr EPacketTooLarge))
+          else (match retain_packet o1 id off len with
+                | Some o2 ->
+                  ((set_ob s2 o2), (MRetained { op_kind = kind; op_pid = id;
+                    op_gen = s2.s_gen }))
+                | None -> (s2, (MErr EInflightExhausted)))
+        | EErr e -> (s2, (MErr (err_of_serr e))))
+
+(** val subscribe_middle :
+    session -> (bytes * sub_opts) list -> prop list -> session * midres **)
+
+let subscribe_middle s topics ps =
+  enqueue_middle s (Npos (XO XH)) (fun cap id ->
+    enc_subscribe cap { sq_pid = id; sq_props = ps; sq_topics = topics })
+
+(** val unsubscribe_middle :
+    session -> bytes list -> prop list -> session * midres **)
+
+let unsubscribe_middle s topics ps =
+  enqueue_middle s (Npos (XI XH)) (fun cap id ->
+    enc_unsubscribe cap { uq_pid = id; uq_props = ps; uq_topics = topics })
+
+type dprep =
+| DPErr of err
+| DPOk of bytes
+
+(** val disconnect_prepare : session -> disconnect_req -> dprep **)
+
+let disconnect_prepare s d =
+  let bad =
+    match d.dq_props with
+    | Some l -> negb (props_valid_for (PSlice l) CtxDisconnect)
+    | None -> false
+  in
+  if bad
+  then DPErr EInvalidRequest
+  else (match enc_disconnect cONTROL_PACKET_LEN d with
+        | SOk (_, bs) ->
+          if too_large s.s_rt.rt_mps (lenN bs)
+          then DPErr EPacketTooLarge
+          else DPOk bs
+        | SErr e -> DPErr (err_of_serr e))
+
+type fpkt =
+| FCtl of caction
+| FRel of n
+| FRet of n
+
+type prepared =
+| PWrite of fpkt * bytes * n * n
+| PFlush of fpkt
+| PDone
+| PErr of err
+
+(** val prepare_step : session -> ostep -> prepared **)
+
+let prepare_step s = function
+| StCtl (a, st0) ->
+  (match st0 with
+   | SWrite w ->
+     (match encode_control_packet a with
+      | SOk (_, bs) ->
+        if too_large s.s_rt.rt_mps (lenN bs)
+        then PErr EPacketTooLarge
+        else PWrite ((FCtl a), bs, w, (lenN bs))
+      | SErr e -> PErr (err_of_serr e))
+   | SFlush -> PFlush (FCtl a)
+   | SSent -> PDone)
+| StRel (pid, rc, st0) ->
+  (match st0 with
+   | SWrite w ->
+     (match encode_pubrel pid rc with
+      | SOk (_, bs) ->
+        if too_large s.s_rt.rt_mps (lenN bs)
+        then PErr EPacketTooLarge
+        else PWrite ((FRel pid), bs, w, (lenN bs))
+      | SErr e -> PErr (err_of_serr e))
+   | SFlush -> PFlush (FRel pid)
+   | SSent -> PDone)
+| StRet (pid, off, len, st0) ->
+  (match st0 with
+   | SWrite w ->
+     if too_large s.s_rt.rt_mps len
+     then PErr EPacketTooLarge
+     else PWrite ((FRet pid), (retained_packet s.s_ob off len), w, len)
+   | SFlush -> PFlush (FRet pid)
+   | SSent -> PDone)
+
+(** val set_written : session -> fpkt -> n -> n -> session * bool **)
+
+let set_written s p written len =
+  let (o, b) =
+    match p with
+    | FCtl a -> set_control_written s.s_ob a written len
+    | FRel pid -> set_release_written s.s_ob pid written len
+    | FRet pid -> set_retained_written s.s_ob pid written len
+  in
+  ((set_ob s o), b)
+
+(** val complete_flush : session -> fpkt -> n -> session * bool **)
+
+let complete_flush s p now =
+  let r0 = s.s_rt in
+  let r1 =
+    match p with
+    | FCtl a ->
+      (match a with
+       | CPing ->
+         rt_with_timers r0 r0.rt_next_ping (Some
+           (N.add now rOUND_TRIP_TIMEOUT_MS))
+       | _ -> r0)
+    | _ -> r0
+  in
+  let r2 = note_outbound_activity r1 now in
+  let (o, b) =
+    match p with
+    | FCtl a -> flush_control s.s_ob a
+    | FRel pid -> flush_release s.s_ob pid
+    | FRet pid -> flush_retained s.s_ob pid
+  in
+  ((set_rt (set_ob s o) r2), b)
+
+(** val should_queue_pingreq : session -> n -> bool **)
+
+let should_queue_pingreq s now =
+  (&&)
+    ((&&) (match s.s_rt.rt_ping_timeout with
+           | Some _ -> false
+           | None -> true)
+      (match s.s_rt.rt_next_ping with
+       | Some d -> N.leb d now
+       | None -> false)) (negb (has_pending_pingreq s.s_ob))
+
+(** val maybe_queue_pingreq : session -> n -> session * err option **)
+
+let maybe_queue_pingreq s now =
+  if should_queue_pingreq s now
+  then (match check_control_size s.s_rt.rt_mps CPing with
+        | Some e -> (s, (Some e))
+        | None ->
+          (match queue_control s.s_ob CPing with
+           | Some o -> ((set_ob s o), None)
+           | None -> (s, (Some EInflightExhausted))))
+  else (s, None)
+
+(** val ping_timed_out : session -> n -> bool **)
+
+let ping_timed_out s now =
+  match s.s_rt.rt_ping_timeout with
+  | Some d -> N.leb d now
+  | None -> false
 
 type text = n list
 
@@ -2309,7 +3594,7 @@ let show_sres = function
        false, true, true, true, false)), (String ((Ascii (true, true, true,
        true, false, true, true, false)), (String ((Ascii (true, false, true,
        true, false, true, true, false)), EmptyString))))))))))))))))))))
-   | EPayload ->
+   | EPay ->
      s2t (String ((Ascii (true, false, true, false, false, false, true,
        false)), (String ((Ascii (false, true, false, false, true, false,
        true, false)), (String ((Ascii (false, true, false, false, true,
@@ -2626,6 +3911,2383 @@ let p_disconnect_req =
     p_bind (p_opt (p_list p_prop)) (fun ps ->
       p_ret { dq_reason = r; dq_props = ps }))
 
+type world = { w_sess : session; w_conn : bool; w_live : bool; w_event : 
+               n; w_now : n; w_inq : (n * bytes) list; w_last_arrival : 
+               n; w_txbuf : bytes; w_script : (n * n) list; w_broker : 
+               n; w_log : text list; w_handles : op list }
+
+(** val upd_sess : world -> session -> world **)
+
+let upd_sess w s =
+  { w_sess = s; w_conn = w.w_conn; w_live = w.w_live; w_event = w.w_event;
+    w_now = w.w_now; w_inq = w.w_inq; w_last_arrival = w.w_last_arrival;
+    w_txbuf = w.w_txbuf; w_script = w.w_script; w_broker = w.w_broker;
+    w_log = w.w_log; w_handles = w.w_handles }
+
+(** val upd_live : world -> bool -> bool -> n -> world **)
+
+let upd_live w conn live ev =
+  { w_sess = w.w_sess; w_conn = conn; w_live = live; w_event = ev; w_now =
+    w.w_now; w_inq = w.w_inq; w_last_arrival = w.w_last_arrival; w_txbuf =
+    w.w_txbuf; w_script = w.w_script; w_broker = w.w_broker; w_log = w.w_log;
+    w_handles = w.w_handles }
+
+(** val upd_log : world -> text -> world **)
+
+let upd_log w l =
+  { w_sess = w.w_sess; w_conn = w.w_conn; w_live = w.w_live; w_event =
+    w.w_event; w_now = w.w_now; w_inq = w.w_inq; w_last_arrival =
+    w.w_last_arrival; w_txbuf = w.w_txbuf; w_script = w.w_script; w_broker =
+    w.w_broker; w_log = (l :: w.w_log); w_handles = w.w_handles }
+
+(** val upd_script : world -> (n * n) list -> world **)
+
+let upd_script w sc =
+  { w_sess = w.w_sess; w_conn = w.w_conn; w_live = w.w_live; w_event =
+    w.w_event; w_now = w.w_now; w_inq = w.w_inq; w_last_arrival =
+    w.w_last_arrival; w_txbuf = w.w_txbuf; w_script = sc; w_broker =
+    w.w_broker; w_log = w.w_log; w_handles = w.w_handles }
+
+(** val upd_now : world -> n -> world **)
+
+let upd_now w t =
+  { w_sess = w.w_sess; w_conn = w.w_conn; w_live = w.w_live; w_event =
+    w.w_event; w_now = t; w_inq = w.w_inq; w_last_arrival = w.w_last_arrival;
+    w_txbuf = w.w_txbuf; w_script = w.w_script; w_broker = w.w_broker;
+    w_log = w.w_log; w_handles = w.w_handles }
+
+(** val upd_inq : world -> (n * bytes) list -> n -> world **)
+
+let upd_inq w q last =
+  { w_sess = w.w_sess; w_conn = w.w_conn; w_live = w.w_live; w_event =
+    w.w_event; w_now = w.w_now; w_inq = q; w_last_arrival = last; w_txbuf =
+    w.w_txbuf; w_script = w.w_script; w_broker = w.w_broker; w_log = w.w_log;
+    w_handles = w.w_handles }
+
+(** val upd_txbuf : world -> bytes -> world **)
+
+let upd_txbuf w b =
+  { w_sess = w.w_sess; w_conn = w.w_conn; w_live = w.w_live; w_event =
+    w.w_event; w_now = w.w_now; w_inq = w.w_inq; w_last_arrival =
+    w.w_last_arrival; w_txbuf = b; w_script = w.w_script; w_broker =
+    w.w_broker; w_log = w.w_log; w_handles = w.w_handles }
+
+(** val upd_broker : world -> n -> world **)
+
+let upd_broker w m =
+  { w_sess = w.w_sess; w_conn = w.w_conn; w_live = w.w_live; w_event =
+    w.w_event; w_now = w.w_now; w_inq = w.w_inq; w_last_arrival =
+    w.w_last_arrival; w_txbuf = w.w_txbuf; w_script = w.w_script; w_broker =
+    m; w_log = w.w_log; w_handles = w.w_handles }
+
+(** val upd_handles : world -> op list -> world **)
+
+let upd_handles w h =
+  { w_sess = w.w_sess; w_conn = w.w_conn; w_live = w.w_live; w_event =
+    w.w_event; w_now = w.w_now; w_inq = w.w_inq; w_last_arrival =
+    w.w_last_arrival; w_txbuf = w.w_txbuf; w_script = w.w_script; w_broker =
+    w.w_broker; w_log = w.w_log; w_handles = h }
+
+(** val w_hd : world -> world **)
+
+let w_hd w =
+  upd_live (upd_sess w (sess_handle_disconnect w.w_sess)) w.w_conn false
+    w.w_event
+
+(** val broker_reply : bytes -> bytes **)
+
+let broker_reply = function
+| [] -> []
+| h :: t ->
+  let typ = N.div h (Npos (XO (XO (XO (XO XH))))) in
+  (match varint_read t with
+   | VOk (_, body) ->
+     if N.eqb typ (Npos (XI XH))
+     then let q = N.modulo (N.div h (Npos (XO XH))) (Npos (XO (XO XH))) in
+          (match read_u16 body with
+           | Some p ->
+             let (tl0, r) = p in
+             (match dropN tl0 r with
+              | [] -> []
+              | a :: l ->
+                (match l with
+                 | [] -> []
+                 | b :: _ ->
+                   if N.eqb q (Npos XH)
+                   then (Npos (XO (XO (XO (XO (XO (XO XH))))))) :: ((Npos (XO
+                          XH)) :: (a :: (b :: [])))
+                   else if N.eqb q (Npos (XO XH))
+                        then (Npos (XO (XO (XO (XO (XI (XO
+                               XH))))))) :: ((Npos (XO
+                               XH)) :: (a :: (b :: [])))
+                        else []))
+           | None -> [])
+     else if N.eqb typ (Npos (XO (XI XH)))
+          then (match body with
+                | [] -> []
+                | a :: l ->
+                  (match l with
+                   | [] -> []
+                   | b :: _ ->
+                     (Npos (XO (XO (XO (XO (XI (XI XH))))))) :: ((Npos (XO
+                       XH)) :: (a :: (b :: [])))))
+          else if N.eqb typ (Npos (XO (XO (XO XH))))
+               then (match body with
+                     | [] -> []
+                     | a :: l ->
+                       (match l with
+                        | [] -> []
+                        | b :: _ ->
+                          (Npos (XO (XO (XO (XO (XI (XO (XO
+                            XH)))))))) :: ((Npos (XO (XO
+                            XH))) :: (a :: (b :: (N0 :: (N0 :: [])))))))
+               else if N.eqb typ (Npos (XO (XI (XO XH))))
+                    then (match body with
+                          | [] -> []
+                          | a :: l ->
+                            (match l with
+                             | [] -> []
+                             | b :: _ ->
+                               (Npos (XO (XO (XO (XO (XI (XI (XO
+                                 XH)))))))) :: ((Npos (XO (XO
+                                 XH))) :: (a :: (b :: (N0 :: (N0 :: [])))))))
+                    else if N.eqb typ (Npos (XO (XO (XI XH))))
+                         then (Npos (XO (XO (XO (XO (XI (XO (XI
+                                XH)))))))) :: (N0 :: [])
+                         else []
+   | _ -> [])
+
+(** val broker_split : nat -> bytes -> bytes -> bytes * bytes **)
+
+let rec broker_split fuel buf acc =
+  match fuel with
+  | O -> (acc, buf)
+  | S f ->
+    (match buf with
+     | [] -> (acc, buf)
+     | _ :: t ->
+       (match varint_read t with
+        | VOk (n0, body) ->
+          if N.ltb (lenN body) n0
+          then (acc, buf)
+          else let total =
+                 N.add (N.add (Npos XH) (N.sub (lenN t) (lenN body))) n0
+               in
+               broker_split f (dropN total buf)
+                 (app acc (broker_reply (takeN total buf)))
+        | VErrShort -> (acc, buf)
+        | VErrBad -> (acc, [])))
+
+(** val broker_feed : world -> bytes -> world **)
+
+let broker_feed w accepted =
+  if N.eqb w.w_broker N0
+  then w
+  else let buf = app w.w_txbuf accepted in
+       let (replies, rest) = broker_split (S (length buf)) buf [] in
+       let w1 = upd_txbuf w rest in
+       (match replies with
+        | [] -> w1
+        | _ :: _ ->
+          let t = N.max w1.w_now w1.w_last_arrival in
+          upd_inq w1 (app w1.w_inq ((t, replies) :: [])) t)
+
+(** val next_ev : world -> (n * n) * (n * n) list **)
+
+let next_ev w =
+  match w.w_script with
+  | [] ->
+    ((N0, (Npos (XO (XO (XO (XO (XO (XO (XO (XO (XO (XI (XO (XI (XO (XO (XI
+      (XI (XO (XI (XO (XI (XI (XO (XO (XI (XI (XI (XO (XI (XI
+      XH))))))))))))))))))))))))))))))), [])
+  | e :: t -> (e, t)
+
+type wres =
+| WOk of n
+| WFail
+| WCancel
+
+(** val io_write : bytes -> world -> world * wres **)
+
+let io_write bs w =
+  let len = lenN bs in
+  if N.eqb len N0
+  then ((upd_log w
+          (s2t (String ((Ascii (true, true, true, false, true, true, true,
+            false)), (String ((Ascii (false, false, false, false, false,
+            true, false, false)), (String ((Ascii (false, false, false,
+            false, true, true, false, false)), (String ((Ascii (false, false,
+            false, false, false, true, false, false)), (String ((Ascii
+            (false, false, false, false, true, true, false, false)), (String
+            ((Ascii (false, false, false, false, false, true, false, false)),
+            EmptyString)))))))))))))), (WOk N0))
+  else let (p, rest) = next_ev w in
+       let (k, amt) = p in
+       let w1 = upd_script w rest in
+       let pre =
+         app
+           (s2t (String ((Ascii (true, true, true, false, true, true, true,
+             false)), (String ((Ascii (false, false, false, false, false,
+             true, false, false)), EmptyString)))))
+           (app (show_N len)
+             (s2t (String ((Ascii (false, false, false, false, false, true,
+               false, false)), EmptyString))))
+       in
+       if N.eqb k (Npos XH)
+       then ((upd_log w1
+               (app pre
+                 (s2t (String ((Ascii (false, true, true, false, false, true,
+                   true, false)), (String ((Ascii (true, false, false, false,
+                   false, true, true, false)), (String ((Ascii (true, false,
+                   false, true, false, true, true, false)), (String ((Ascii
+                   (false, false, true, true, false, true, true, false)),
+                   EmptyString))))))))))), WFail)
+       else if N.eqb k (Npos (XO XH))
+            then ((upd_log w1
+                    (app pre
+                      (s2t (String ((Ascii (false, true, false, true, true,
+                        true, true, false)), (String ((Ascii (true, false,
+                        true, false, false, true, true, false)), (String
+                        ((Ascii (false, true, false, false, true, true, true,
+                        false)), (String ((Ascii (true, true, true, true,
+                        false, true, true, false)), EmptyString))))))))))),
+                   (WOk N0))
+            else if N.eqb k (Npos (XI XH))
+                 then ((upd_log w1
+                         (app pre
+                           (s2t (String ((Ascii (false, false, true, false,
+                             false, true, true, false)), (String ((Ascii
+                             (false, true, false, false, true, true, true,
+                             false)), (String ((Ascii (true, true, true,
+                             true, false, true, true, false)), (String
+                             ((Ascii (false, false, false, false, true, true,
+                             true, false)), EmptyString))))))))))), WCancel)
+                 else let n0 = N.min (N.max amt (Npos XH)) len in
+                      let acc = takeN n0 bs in
+                      ((broker_feed
+                         (upd_log w1
+                           (app pre
+                             (app (show_N n0)
+                               (app
+                                 (s2t (String ((Ascii (false, false, false,
+                                   false, false, true, false, false)),
+                                   EmptyString))) (hex acc))))) acc), (WOk
+                      n0))
+
+type flres =
+| FlOk
+| FlFail
+| FlCancel
+
+(** val io_flush : world -> world * flres **)
+
+let io_flush w =
+  let (p, rest) = next_ev w in
+  let (k, _) = p in
+  let w1 = upd_script w rest in
+  if N.eqb k (Npos XH)
+  then ((upd_log w1
+          (s2t (String ((Ascii (false, true, true, false, false, true, true,
+            false)), (String ((Ascii (false, false, false, false, false,
+            true, false, false)), (String ((Ascii (false, true, true, false,
+            false, true, true, false)), (String ((Ascii (true, false, false,
+            false, false, true, true, false)), (String ((Ascii (true, false,
+            false, true, false, true, true, false)), (String ((Ascii (false,
+            false, true, true, false, true, true, false)),
+            EmptyString)))))))))))))), FlFail)
+  else if N.eqb k (Npos (XI XH))
+       then ((upd_log w1
+               (s2t (String ((Ascii (false, true, true, false, false, true,
+                 true, false)), (String ((Ascii (false, false, false, false,
+                 false, true, false, false)), (String ((Ascii (false, false,
+                 true, false, false, true, true, false)), (String ((Ascii
+                 (false, true, false, false, true, true, true, false)),
+                 (String ((Ascii (true, true, true, true, false, true, true,
+                 false)), (String ((Ascii (false, false, false, false, true,
+                 true, true, false)), EmptyString)))))))))))))), FlCancel)
+       else ((upd_log w1
+               (s2t (String ((Ascii (false, true, true, false, false, true,
+                 true, false)), (String ((Ascii (false, false, false, false,
+                 false, true, false, false)), (String ((Ascii (true, true,
+                 true, true, false, true, true, false)), (String ((Ascii
+                 (true, true, false, true, false, true, true, false)),
+                 EmptyString)))))))))), FlOk)
+
+(** val avail_split : n -> (n * bytes) list -> bytes * (n * bytes) list **)
+
+let rec avail_split now q = match q with
+| [] -> ([], [])
+| p :: r ->
+  let (t, b) = p in
+  if N.leb t now
+  then let (a, r') = avail_split now r in ((app b a), r')
+  else ([], q)
+
+(** val next_arrival : (n * bytes) list -> n option **)
+
+let next_arrival = function
+| [] -> None
+| p :: _ -> let (t, _) = p in Some t
+
+type rres =
+| RData of bytes
+| RFail
+| RTimeout
+| RCancel
+
+(** val deliver : n -> n -> world -> world * rres **)
+
+let deliver window amt w =
+  let (av, later) = avail_split w.w_now w.w_inq in
+  let n0 = N.min (N.max amt (Npos XH)) (N.min window (lenN av)) in
+  let d = takeN n0 av in
+  let rest = dropN n0 av in
+  let q = match rest with
+          | [] -> later
+          | _ :: _ -> (w.w_now, rest) :: later in
+  ((upd_log (upd_inq w q w.w_last_arrival)
+     (app
+       (s2t (String ((Ascii (false, true, false, false, true, true, true,
+         false)), (String ((Ascii (false, false, false, false, false, true,
+         false, false)), EmptyString)))))
+       (app (show_N window)
+         (app
+           (s2t (String ((Ascii (false, false, false, false, false, true,
+             false, false)), EmptyString)))
+           (app (show_N n0)
+             (app
+               (s2t (String ((Ascii (false, false, false, false, false, true,
+                 false, false)), EmptyString))) (hex d))))))), (RData d))
+
+(** val io_read : n -> n option -> world -> world * rres **)
+
+let io_read window deadline w =
+  let pre =
+    app
+      (s2t (String ((Ascii (false, true, false, false, true, true, true,
+        false)), (String ((Ascii (false, false, false, false, false, true,
+        false, false)), EmptyString)))))
+      (app (show_N window)
+        (s2t (String ((Ascii (false, false, false, false, false, true, false,
+          false)), EmptyString))))
+  in
+  if N.eqb window N0
+  then ((upd_log w
+          (app pre
+            (s2t (String ((Ascii (false, false, false, false, true, true,
+              false, false)), (String ((Ascii (false, false, false, false,
+              false, true, false, false)), EmptyString))))))), (RData []))
+  else let (p, rest) = next_ev w in
+       let (k, amt) = p in
+       if N.eqb k (Npos XH)
+       then ((upd_log (upd_script w rest)
+               (app pre
+                 (s2t (String ((Ascii (false, true, true, false, false, true,
+                   true, false)), (String ((Ascii (true, false, false, false,
+                   false, true, true, false)), (String ((Ascii (true, false,
+                   false, true, false, true, true, false)), (String ((Ascii
+                   (false, false, true, true, false, true, true, false)),
+                   EmptyString))))))))))), RFail)
+       else if N.eqb k (Npos (XO XH))
+            then ((upd_log (upd_script w rest)
+                    (app pre
+                      (s2t (String ((Ascii (true, false, true, false, false,
+                        true, true, false)), (String ((Ascii (true, true,
+                        true, true, false, true, true, false)), (String
+                        ((Ascii (false, true, true, false, false, true, true,
+                        false)), EmptyString))))))))), (RData []))
+            else if N.eqb k (Npos (XI XH))
+                 then ((upd_log (upd_script w rest)
+                         (app pre
+                           (s2t (String ((Ascii (false, false, true, false,
+                             false, true, true, false)), (String ((Ascii
+                             (false, true, false, false, true, true, true,
+                             false)), (String ((Ascii (true, true, true,
+                             true, false, true, true, false)), (String
+                             ((Ascii (false, false, false, false, true, true,
+                             true, false)), EmptyString))))))))))), RCancel)
+                 else let (av, _) = avail_split w.w_now w.w_inq in
+                      (match av with
+                       | [] ->
+                         let t1 = next_arrival w.w_inq in
+                         let target =
+                           match deadline with
+                           | Some d ->
+                             if N.leb d w.w_now
+                             then Some (N.add w.w_now (Npos XH))
+                             else (match t1 with
+                                   | Some t -> Some (N.min t d)
+                                   | None -> Some d)
+                           | None -> t1
+                         in
+                         (match target with
+                          | Some t ->
+                            let w1 =
+                              upd_log (upd_now w t)
+                                (app
+                                  (s2t (String ((Ascii (false, false, true,
+                                    false, true, true, true, false)), (String
+                                    ((Ascii (false, false, false, false,
+                                    false, true, false, false)),
+                                    EmptyString))))) (show_N t))
+                            in
+                            let (av1, _) = avail_split t w1.w_inq in
+                            (match av1 with
+                             | [] ->
+                               ((upd_log w1
+                                  (app pre
+                                    (s2t (String ((Ascii (false, false, true,
+                                      false, false, true, true, false)),
+                                      (String ((Ascii (false, true, false,
+                                      false, true, true, true, false)),
+                                      (String ((Ascii (true, true, true,
+                                      true, false, true, true, false)),
+                                      (String ((Ascii (false, false, false,
+                                      false, true, true, true, false)),
+                                      EmptyString))))))))))), RTimeout)
+                             | _ :: _ ->
+                               deliver window amt (upd_script w1 rest))
+                          | None ->
+                            ((upd_log w
+                               (app pre
+                                 (s2t (String ((Ascii (false, false, true,
+                                   false, false, true, true, false)), (String
+                                   ((Ascii (false, true, false, false, true,
+                                   true, true, false)), (String ((Ascii
+                                   (true, true, true, true, false, true,
+                                   true, false)), (String ((Ascii (false,
+                                   false, false, false, true, true, true,
+                                   false)), EmptyString))))))))))), RCancel))
+                       | _ :: _ -> deliver window amt (upd_script w rest))
+
+type 'a outcome =
+| ODone of 'a
+| OFail of err
+| OCancel
+| OFuel
+| OPanic
+
+(** val write_all : nat -> bytes -> world -> world * unit outcome **)
+
+let rec write_all fuel bs w =
+  match fuel with
+  | O -> (w, OFuel)
+  | S f ->
+    (match bs with
+     | [] -> (w, (ODone ()))
+     | _ :: _ ->
+       let (w1, r) = io_write bs w in
+       (match r with
+        | WOk n0 ->
+          if N.eqb n0 N0
+          then (w1, (OFail EWriteZero))
+          else write_all f (dropN n0 bs) w1
+        | WFail -> (w1, (OFail ETransport))
+        | WCancel -> (w1, OCancel)))
+
+(** val flush_current : fpkt -> n -> world -> world * bool outcome **)
+
+let flush_current p now w =
+  if negb w.w_live
+  then (w, (OFail EDisconnected))
+  else let (w1, r) = io_flush w in
+       (match r with
+        | FlOk ->
+          let (s, found) = complete_flush w1.w_sess p now in
+          if found
+          then ((upd_sess w1 s), (ODone true))
+          else ((upd_sess w1 s), OPanic)
+        | FlFail -> ((w_hd w1), (OFail ETransport))
+        | FlCancel -> (w1, OCancel))
+
+(** val perform_outbound_step :
+    ostep -> n -> world -> world * bool outcome **)
+
+let perform_outbound_step st now w =
+  match prepare_step w.w_sess st with
+  | PWrite (p, bs, written, len) ->
+    if negb w.w_live
+    then (w, (OFail EDisconnected))
+    else let (w1, r) = io_write (dropN written bs) w in
+         (match r with
+          | WOk n0 ->
+            if N.eqb n0 N0
+            then (w1, (OFail EWriteZero))
+            else let written' = N.add written n0 in
+                 let (s, found) = set_written w1.w_sess p written' len in
+                 let w2 = upd_sess w1 s in
+                 if negb found
+                 then (w2, OPanic)
+                 else if N.ltb written' len
+                      then (w2, (ODone true))
+                      else flush_current p now w2
+          | WFail -> ((w_hd w1), (OFail ETransport))
+          | WCancel -> (w1, OCancel))
+  | PFlush p -> flush_current p now w
+  | PDone -> (w, (ODone false))
+  | PErr e -> (w, (OFail e))
+
+(** val flush_outbound : nat -> world -> world * unit outcome **)
+
+let rec flush_outbound fuel w =
+  match fuel with
+  | O -> (w, OFuel)
+  | S f ->
+    let now = w.w_now in
+    let (s1, e) = maybe_queue_pingreq w.w_sess now in
+    let w1 = upd_sess w s1 in
+    (match e with
+     | Some e0 -> (w1, (OFail e0))
+     | None ->
+       (match next_step w1.w_sess.s_ob with
+        | Some st ->
+          let (w2, r) = perform_outbound_step st now w1 in
+          (match r with
+           | ODone _ -> flush_outbound f w2
+           | OFail e0 -> (w2, (OFail e0))
+           | OCancel -> (w2, OCancel)
+           | OFuel -> (w2, OFuel)
+           | OPanic -> (w2, OPanic))
+        | None -> (w1, (ODone ()))))
+
+(** val process_received : world -> world * rpacket option outcome **)
+
+let process_received w =
+  let s = w.w_sess in
+  if negb (packet_available s.s_reader)
+  then (w, (ODone None))
+  else (match take_packet s.s_reader with
+        | Some p0 ->
+          let (p1, o) = p0 in
+          let (r', _) = p1 in
+          (match o with
+           | Some p ->
+             let (s2, hr) = handle_packet (set_reader s r') p in
+             let w2 = upd_sess w s2 in
+             (match hr with
+              | HOk deliver0 ->
+                if deliver0
+                then (w2, (ODone (Some p)))
+                else (w2, (ODone None))
+              | HErr e ->
+                (match e with
+                 | EDisconnected -> ((w_hd w2), (OFail EDisconnected))
+                 | EInvalidPacket -> ((w_hd w2), (OFail EInvalidPacket))
+                 | EPacketTooLarge -> ((w_hd w2), (OFail EPacketTooLarge))
+                 | _ -> (w2, (OFail e))))
+           | None ->
+             ((w_hd (upd_sess w (set_reader s r'))), (OFail EInvalidPacket)))
+        | None -> (w, (ODone None)))
+
+type progress =
+| PrIdle
+| PrAdvanced
+| PrInbound of rpacket
+
+(** val service : n -> world -> world * bool outcome **)
+
+let service now w =
+  if ping_timed_out w.w_sess now
+  then ((w_hd w), (OFail EDisconnected))
+  else let (s1, e) = maybe_queue_pingreq w.w_sess now in
+       let w1 = upd_sess w s1 in
+       (match e with
+        | Some e0 -> (w1, (OFail e0))
+        | None ->
+          (match next_step w1.w_sess.s_ob with
+           | Some st -> perform_outbound_step st now w1
+           | None -> (w1, (ODone false))))
+
+(** val drive_loop : nat -> bool -> world -> world * progress outcome **)
+
+let rec drive_loop fuel advanced w =
+  match fuel with
+  | O -> (w, OFuel)
+  | S f ->
+    let (w1, r1) = process_received w in
+    (match r1 with
+     | ODone a ->
+       (match a with
+        | Some p -> (w1, (ODone (PrInbound p)))
+        | None ->
+          if packet_available w.w_sess.s_reader
+          then drive_loop f true w1
+          else let (w2, r2) = service w1.w_now w1 in
+               (match r2 with
+                | ODone adv ->
+                  let advanced' = (||) advanced adv in
+                  (match next_step w2.w_sess.s_ob with
+                   | Some _ -> drive_loop f advanced' w2
+                   | None ->
+                     (w2, (ODone (if advanced' then PrAdvanced else PrIdle))))
+                | OFail e -> (w2, (OFail e))
+                | OCancel -> (w2, OCancel)
+                | OFuel -> (w2, OFuel)
+                | OPanic -> (w2, OPanic)))
+     | OFail e -> (w1, (OFail e))
+     | OCancel -> (w1, OCancel)
+     | OFuel -> (w1, OFuel)
+     | OPanic -> (w1, OPanic))
+
+(** val drive_packet : nat -> world -> world * progress outcome **)
+
+let drive_packet fuel w =
+  if negb w.w_live
+  then (w, (OFail EDisconnected))
+  else drive_loop fuel false w
+
+type fillres =
+| FillOk
+| FillErr of err
+| FillTimeout
+| FillCancel
+| FillFuel
+
+(** val fill_packet_reader : nat -> n option -> world -> world * fillres **)
+
+let rec fill_packet_reader fuel deadline w =
+  match fuel with
+  | O -> (w, FillFuel)
+  | S f ->
+    let s = w.w_sess in
+    if packet_available s.s_reader
+    then (w, FillOk)
+    else let (r', o) = receive_buffer s.s_reader in
+         (match o with
+          | Some win ->
+            let w0 = upd_sess w (set_reader s r') in
+            if N.eqb win N0
+            then (w0, FillOk)
+            else let (w1, r) = io_read win deadline w0 in
+                 (match r with
+                  | RData d ->
+                    (match d with
+                     | [] -> (w1, (FillErr EDisconnected))
+                     | _ :: _ ->
+                       fill_packet_reader f deadline
+                         (upd_sess w1
+                           (set_reader w1.w_sess
+                             (commit w1.w_sess.s_reader d))))
+                  | RFail -> (w1, (FillErr ETransport))
+                  | RTimeout -> (w1, FillTimeout)
+                  | RCancel -> (w1, FillCancel))
+          | None -> ((upd_sess w (set_reader s r')), (FillErr EInvalidPacket)))
+
+(** val wait_for_progress : nat -> world -> world * progress outcome **)
+
+let rec wait_for_progress fuel w =
+  match fuel with
+  | O -> (w, OFuel)
+  | S f ->
+    let (w1, r) = drive_packet fuel w in
+    (match r with
+     | ODone a ->
+       (match a with
+        | PrIdle ->
+          let deadline = next_deadline w1.w_sess.s_rt in
+          if negb w1.w_live
+          then (w1, (OFail EDisconnected))
+          else let (w2, fr) = fill_packet_reader fuel deadline w1 in
+               (match fr with
+                | FillErr e -> ((w_hd w2), (OFail e))
+                | FillCancel -> (w2, OCancel)
+                | FillFuel -> (w2, OFuel)
+                | _ -> wait_for_progress f w2)
+        | _ -> (w1, r))
+     | _ -> (w1, r))
+
+(** val op_poll : nat -> world -> world * rpacket option outcome **)
+
+let op_poll fuel w =
+  let (w1, r) = wait_for_progress fuel w in
+  (match r with
+   | ODone a ->
+     (match a with
+      | PrIdle -> (w1, OPanic)
+      | PrAdvanced -> (w1, (ODone None))
+      | PrInbound p -> (w1, (ODone (Some p))))
+   | OFail e -> (w1, (OFail e))
+   | OCancel -> (w1, OCancel)
+   | OFuel -> (w1, OFuel)
+   | OPanic -> (w1, OPanic))
+
+(** val op_recv : nat -> world -> world * rpacket option outcome **)
+
+let rec op_recv fuel w =
+  match fuel with
+  | O -> (w, OFuel)
+  | S f ->
+    let (w1, r) = wait_for_progress fuel w in
+    (match r with
+     | ODone a ->
+       (match a with
+        | PrIdle -> (w1, OPanic)
+        | PrAdvanced -> op_recv f w1
+        | PrInbound p -> (w1, (ODone (Some p))))
+     | OFail e -> (w1, (OFail e))
+     | OCancel -> (w1, OCancel)
+     | OFuel -> (w1, OFuel)
+     | OPanic -> (w1, OPanic))
+
+(** val op_drive : nat -> world -> world * rpacket option outcome **)
+
+let op_drive fuel w =
+  let (w1, r) = drive_packet fuel w in
+  (match r with
+   | ODone a ->
+     (match a with
+      | PrInbound p -> (w1, (ODone (Some p)))
+      | _ -> (w1, (ODone None)))
+   | OFail e -> (w1, (OFail e))
+   | OCancel -> (w1, OCancel)
+   | OFuel -> (w1, OFuel)
+   | OPanic -> (w1, OPanic))
+
+(** val bindu :
+    (world * unit outcome) -> (world -> world * 'a1 outcome) -> world * 'a1
+    outcome **)
+
+let bindu r k =
+  let (w, o) = r in
+  (match o with
+   | ODone _ -> k w
+   | OFail e -> (w, (OFail e))
+   | OCancel -> (w, OCancel)
+   | OFuel -> (w, OFuel)
+   | OPanic -> (w, OPanic))
+
+(** val direct_send : nat -> bytes -> world -> world * unit outcome **)
+
+let direct_send fuel bs w =
+  bindu (write_all fuel bs w) (fun w1 ->
+    let (w2, r) = io_flush w1 in
+    (match r with
+     | FlOk -> (w2, (ODone ()))
+     | FlFail -> (w2, (OFail ETransport))
+     | FlCancel -> (w2, OCancel)))
+
+(** val finish_mid : nat -> world -> midres -> world * op option outcome **)
+
+let finish_mid fuel w = function
+| MErr e -> (w, (OFail e))
+| MRetained o ->
+  bindu (flush_outbound fuel w) (fun w1 -> (w1, (ODone (Some o))))
+| MDirect bs ->
+  let (w1, r) = write_all fuel bs w in
+  (match r with
+   | ODone _ ->
+     let (w2, fr) = io_flush w1 in
+     (match fr with
+      | FlOk ->
+        ((upd_sess w2
+           (set_rt w2.w_sess (note_outbound_activity w2.w_sess.s_rt w2.w_now))),
+          (ODone None))
+      | FlFail -> ((w_hd w2), (OFail ETransport))
+      | FlCancel -> (w2, OCancel))
+   | OFail e ->
+     (match e with
+      | EWriteZero -> (w1, (OFail EWriteZero))
+      | _ -> ((w_hd w1), (OFail e)))
+   | OCancel -> (w1, OCancel)
+   | OFuel -> (w1, OFuel)
+   | OPanic -> (w1, OPanic))
+
+(** val op_publish : nat -> pub_req -> world -> world * op option outcome **)
+
+let op_publish fuel r w =
+  if negb w.w_live
+  then (w, (OFail EDisconnected))
+  else bindu (flush_outbound fuel w) (fun w1 ->
+         let (s2, m) = publish_middle w1.w_sess w1.w_live r in
+         finish_mid fuel (upd_sess w1 s2) m)
+
+(** val op_subscribe :
+    nat -> (bytes * sub_opts) list -> prop list -> world -> world * op option
+    outcome **)
+
+let op_subscribe fuel topics ps w =
+  if negb w.w_live
+  then (w, (OFail EDisconnected))
+  else (match topics with
+        | [] -> (w, (OFail EInvalidRequest))
+        | _ :: _ ->
+          if negb (props_valid_for (PSlice ps) CtxSubscribe)
+          then (w, (OFail EInvalidRequest))
+          else bindu (flush_outbound fuel w) (fun w1 ->
+                 let (s2, m) = subscribe_middle w1.w_sess topics ps in
+                 finish_mid fuel (upd_sess w1 s2) m))
+
+(** val op_unsubscribe :
+    nat -> bytes list -> prop list -> world -> world * op option outcome **)
+
+let op_unsubscribe fuel topics ps w =
+  if negb w.w_live
+  then (w, (OFail EDisconnected))
+  else (match topics with
+        | [] -> (w, (OFail EInvalidRequest))
+        | _ :: _ ->
+          if negb (props_valid_for (PSlice ps) CtxUnsubscribe)
+          then (w, (OFail EInvalidRequest))
+          else bindu (flush_outbound fuel w) (fun w1 ->
+                 let (s2, m) = unsubscribe_middle w1.w_sess topics ps in
+                 finish_mid fuel (upd_sess w1 s2) m))
+
+(** val op_disconnect :
+    nat -> disconnect_req -> world -> world * unit outcome **)
+
+let op_disconnect fuel d w =
+  if negb w.w_live
+  then (w, (ODone ()))
+  else (match disconnect_prepare w.w_sess d with
+        | DPErr e -> (w, (OFail e))
+        | DPOk bs ->
+          let (w1, r) = write_all fuel bs w in
+          (match r with
+           | ODone _ ->
+             let (w2, fr) = io_flush w1 in
+             (match fr with
+              | FlOk -> ((w_hd w2), (ODone ()))
+              | FlFail -> ((w_hd w2), (OFail ETransport))
+              | FlCancel -> (w2, OCancel))
+           | OFail e -> ((w_hd w1), (OFail e))
+           | x -> (w1, x)))
+
+(** val sess_hd : world -> world **)
+
+let sess_hd w =
+  upd_sess w (sess_handle_disconnect w.w_sess)
+
+(** val op_connect : nat -> world -> world * n outcome **)
+
+let op_connect fuel w =
+  let s0 = w.w_sess in
+  let s1 =
+    set_ob
+      (set_rt (set_reader s0 (reader_reset s0.s_reader))
+        (reset_transport s0.s_rt)) (arm_replay s0.s_ob)
+  in
+  let o1 = compact s1.s_ob in
+  let s2 = set_ob s1 o1 in
+  let w2 = upd_sess w s2 in
+  (match enc_connect (N.sub (ob_cap o1) o1.ob_used) (connect_request s2) with
+   | SOk (_, bs) ->
+     bindu (direct_send fuel bs w2) (fun w3 ->
+       let w4 =
+         upd_sess w3
+           (set_rt w3.w_sess (rt_with_timers w3.w_sess.s_rt None None))
+       in
+       let (w5, fr) = fill_packet_reader fuel None w4 in
+       (match fr with
+        | FillOk ->
+          let s5 = w5.w_sess in
+          (match take_packet s5.s_reader with
+           | Some p0 ->
+             let (p1, p) = p0 in
+             let (r', _) = p1 in
+             let (s6, cr) = connack_process (set_reader s5 r') p w5.w_now in
+             (match cr with
+              | CAOk resumed ->
+                ((upd_sess w5 s6), (ODone (if resumed then Npos XH else N0)))
+              | CAErr (e, disconnect) ->
+                if disconnect
+                then ((sess_hd (upd_sess w5 s6)), (OFail e))
+                else ((upd_sess w5 s6), (OFail e)))
+           | None -> ((sess_hd w5), (OFail EInvalidPacket)))
+        | FillErr e -> ((sess_hd w5), (OFail e))
+        | FillTimeout -> (w5, OPanic)
+        | FillCancel -> (w5, OCancel)
+        | FillFuel -> (w5, OFuel)))
+   | SErr e -> (w2, (OFail (err_of_serr e))))
+
+type action =
+| AConnect of (n * bytes) list
+| APublish of pub_req
+| ASubscribe of (bytes * sub_opts) list * prop list
+| AUnsubscribe of bytes list * prop list
+| ADisconnect of disconnect_req
+| ADrive
+| APoll
+| ARecv
+| AFeed of n * bytes
+| AAdvance of n
+| ADropConn
+| AHandleDisconnect
+| ASetBroker of n
+| ASetPid of n
+
+type case = { c_cfg : config; c_prog : action list; c_script : (n * n) list }
+
+(** val fUEL : nat **)
+
+let fUEL =
+  mul
+    (mul (S (S (S (S (S (S (S (S (S (S (S (S (S (S (S (S (S (S (S (S (S (S (S
+      (S (S (S (S (S (S (S (S (S (S (S (S (S (S (S (S (S (S (S (S (S (S (S (S
+      (S (S (S (S (S (S (S (S (S (S (S (S (S (S (S (S (S (S (S (S (S (S (S (S
+      (S (S (S (S (S (S (S (S (S (S (S (S (S (S (S (S (S (S (S (S (S (S (S (S
+      (S (S (S (S (S
+      O))))))))))))))))))))))))))))))))))))))))))))))))))))))))))))))))))))))))))))))))))))))))))))))))))))
+      (S (S (S (S (S (S (S (S (S (S (S (S (S (S (S (S (S (S (S (S (S (S (S (S
+      (S (S (S (S (S (S (S (S (S (S (S (S (S (S (S (S (S (S (S (S (S (S (S (S
+      (S (S (S (S (S (S (S (S (S (S (S (S (S (S (S (S (S (S (S (S (S (S (S (S
+      (S (S (S (S (S (S (S (S (S (S (S (S (S (S (S (S (S (S (S (S (S (S (S (S
+      (S (S (S (S
+      O)))))))))))))))))))))))))))))))))))))))))))))))))))))))))))))))))))))))))))))))))))))))))))))))))))))
+    (S (S (S O)))
+
+(** val show_err : err -> text **)
+
+let show_err = function
+| ENotReady ->
+  s2t (String ((Ascii (false, true, true, true, false, false, true, false)),
+    (String ((Ascii (true, true, true, true, false, true, true, false)),
+    (String ((Ascii (false, false, true, false, true, true, true, false)),
+    (String ((Ascii (false, true, false, false, true, false, true, false)),
+    (String ((Ascii (true, false, true, false, false, true, true, false)),
+    (String ((Ascii (true, false, false, false, false, true, true, false)),
+    (String ((Ascii (false, false, true, false, false, true, true, false)),
+    (String ((Ascii (true, false, false, true, true, true, true, false)),
+    EmptyString))))))))))))))))
+| EDisconnected ->
+  s2t (String ((Ascii (false, false, true, false, false, false, true,
+    false)), (String ((Ascii (true, false, false, true, false, true, true,
+    false)), (String ((Ascii (true, true, false, false, true, true, true,
+    false)), (String ((Ascii (true, true, false, false, false, true, true,
+    false)), (String ((Ascii (true, true, true, true, false, true, true,
+    false)), (String ((Ascii (false, true, true, true, false, true, true,
+    false)), (String ((Ascii (false, true, true, true, false, true, true,
+    false)), (String ((Ascii (true, false, true, false, false, true, true,
+    false)), (String ((Ascii (true, true, false, false, false, true, true,
+    false)), (String ((Ascii (false, false, true, false, true, true, true,
+    false)), (String ((Ascii (true, false, true, false, false, true, true,
+    false)), (String ((Ascii (false, false, true, false, false, true, true,
+    false)), EmptyString))))))))))))))))))))))))
+| EInvalidRequest ->
+  s2t (String ((Ascii (true, false, false, true, false, false, true, false)),
+    (String ((Ascii (false, true, true, true, false, true, true, false)),
+    (String ((Ascii (false, true, true, false, true, true, true, false)),
+    (String ((Ascii (true, false, false, false, false, true, true, false)),
+    (String ((Ascii (false, false, true, true, false, true, true, false)),
+    (String ((Ascii (true, false, false, true, false, true, true, false)),
+    (String ((Ascii (false, false, true, false, false, true, true, false)),
+    (String ((Ascii (false, true, false, false, true, false, true, false)),
+    (String ((Ascii (true, false, true, false, false, true, true, false)),
+    (String ((Ascii (true, false, false, false, true, true, true, false)),
+    (String ((Ascii (true, false, true, false, true, true, true, false)),
+    (String ((Ascii (true, false, true, false, false, true, true, false)),
+    (String ((Ascii (true, true, false, false, true, true, true, false)),
+    (String ((Ascii (false, false, true, false, true, true, true, false)),
+    EmptyString))))))))))))))))))))))))))))
+| ERejected rc ->
+  app
+    (s2t (String ((Ascii (false, true, false, false, true, false, true,
+      false)), (String ((Ascii (true, false, true, false, false, true, true,
+      false)), (String ((Ascii (false, true, false, true, false, true, true,
+      false)), (String ((Ascii (true, false, true, false, false, true, true,
+      false)), (String ((Ascii (true, true, false, false, false, true, true,
+      false)), (String ((Ascii (false, false, true, false, true, true, true,
+      false)), (String ((Ascii (true, false, true, false, false, true, true,
+      false)), (String ((Ascii (false, false, true, false, false, true, true,
+      false)), (String ((Ascii (false, false, false, true, false, true,
+      false, false)), EmptyString)))))))))))))))))))
+    (app (show_N rc)
+      (s2t (String ((Ascii (true, false, false, true, false, true, false,
+        false)), EmptyString))))
+| EInvalidPacket ->
+  s2t (String ((Ascii (true, false, false, true, false, false, true, false)),
+    (String ((Ascii (false, true, true, true, false, true, true, false)),
+    (String ((Ascii (false, true, true, false, true, true, true, false)),
+    (String ((Ascii (true, false, false, false, false, true, true, false)),
+    (String ((Ascii (false, false, true, true, false, true, true, false)),
+    (String ((Ascii (true, false, false, true, false, true, true, false)),
+    (String ((Ascii (false, false, true, false, false, true, true, false)),
+    (String ((Ascii (false, false, false, false, true, false, true, false)),
+    (String ((Ascii (true, false, false, false, false, true, true, false)),
+    (String ((Ascii (true, true, false, false, false, true, true, false)),
+    (String ((Ascii (true, true, false, true, false, true, true, false)),
+    (String ((Ascii (true, false, true, false, false, true, true, false)),
+    (String ((Ascii (false, false, true, false, true, true, true, false)),
+    EmptyString))))))))))))))))))))))))))
+| EBufferTooSmall ->
+  s2t (String ((Ascii (false, true, false, false, false, false, true,
+    false)), (String ((Ascii (true, false, true, false, true, true, true,
+    false)), (String ((Ascii (false, true, true, false, false, true, true,
+    false)), (String ((Ascii (false, true, true, false, false, true, true,
+    false)), (String ((Ascii (true, false, true, false, false, true, true,
+    false)), (String ((Ascii (false, true, false, false, true, true, true,
+    false)), (String ((Ascii (false, false, true, false, true, false, true,
+    false)), (String ((Ascii (true, true, true, true, false, true, true,
+    false)), (String ((Ascii (true, true, true, true, false, true, true,
+    false)), (String ((Ascii (true, true, false, false, true, false, true,
+    false)), (String ((Ascii (true, false, true, true, false, true, true,
+    false)), (String ((Ascii (true, false, false, false, false, true, true,
+    false)), (String ((Ascii (false, false, true, true, false, true, true,
+    false)), (String ((Ascii (false, false, true, true, false, true, true,
+    false)), EmptyString))))))))))))))))))))))))))))
+| EPacketTooLarge ->
+  s2t (String ((Ascii (false, false, false, false, true, false, true,
+    false)), (String ((Ascii (true, false, false, false, false, true, true,
+    false)), (String ((Ascii (true, true, false, false, false, true, true,
+    false)), (String ((Ascii (true, true, false, true, false, true, true,
+    false)), (String ((Ascii (true, false, true, false, false, true, true,
+    false)), (String ((Ascii (false, false, true, false, true, true, true,
+    false)), (String ((Ascii (false, false, true, false, true, false, true,
+    false)), (String ((Ascii (true, true, true, true, false, true, true,
+    false)), (String ((Ascii (true, true, true, true, false, true, true,
+    false)), (String ((Ascii (false, false, true, true, false, false, true,
+    false)), (String ((Ascii (true, false, false, false, false, true, true,
+    false)), (String ((Ascii (false, true, false, false, true, true, true,
+    false)), (String ((Ascii (true, true, true, false, false, true, true,
+    false)), (String ((Ascii (true, false, true, false, false, true, true,
+    false)), EmptyString))))))))))))))))))))))))))))
+| EInflightExhausted ->
+  s2t (String ((Ascii (true, false, false, true, false, false, true, false)),
+    (String ((Ascii (false, true, true, true, false, true, true, false)),
+    (String ((Ascii (false, true, true, false, false, true, true, false)),
+    (String ((Ascii (false, false, true, true, false, true, true, false)),
+    (String ((Ascii (true, false, false, true, false, true, true, false)),
+    (String ((Ascii (true, true, true, false, false, true, true, false)),
+    (String ((Ascii (false, false, false, true, false, true, true, false)),
+    (String ((Ascii (false, false, true, false, true, true, true, false)),
+    (String ((Ascii (true, false, true, false, false, false, true, false)),
+    (String ((Ascii (false, false, false, true, true, true, true, false)),
+    (String ((Ascii (false, false, false, true, false, true, true, false)),
+    (String ((Ascii (true, false, false, false, false, true, true, false)),
+    (String ((Ascii (true, false, true, false, true, true, true, false)),
+    (String ((Ascii (true, true, false, false, true, true, true, false)),
+    (String ((Ascii (false, false, true, false, true, true, true, false)),
+    (String ((Ascii (true, false, true, false, false, true, true, false)),
+    (String ((Ascii (false, false, true, false, false, true, true, false)),
+    EmptyString))))))))))))))))))))))))))))))))))
+| ETransport ->
+  s2t (String ((Ascii (false, false, true, false, true, false, true, false)),
+    (String ((Ascii (false, true, false, false, true, true, true, false)),
+    (String ((Ascii (true, false, false, false, false, true, true, false)),
+    (String ((Ascii (false, true, true, true, false, true, true, false)),
+    (String ((Ascii (true, true, false, false, true, true, true, false)),
+    (String ((Ascii (false, false, false, false, true, true, true, false)),
+    (String ((Ascii (true, true, true, true, false, true, true, false)),
+    (String ((Ascii (false, true, false, false, true, true, true, false)),
+    (String ((Ascii (false, false, true, false, true, true, true, false)),
+    EmptyString))))))))))))))))))
+| EWriteZero ->
+  s2t (String ((Ascii (true, true, true, false, true, false, true, false)),
+    (String ((Ascii (false, true, false, false, true, true, true, false)),
+    (String ((Ascii (true, false, false, true, false, true, true, false)),
+    (String ((Ascii (false, false, true, false, true, true, true, false)),
+    (String ((Ascii (true, false, true, false, false, true, true, false)),
+    (String ((Ascii (false, true, false, true, true, false, true, false)),
+    (String ((Ascii (true, false, true, false, false, true, true, false)),
+    (String ((Ascii (false, true, false, false, true, true, true, false)),
+    (String ((Ascii (true, true, true, true, false, true, true, false)),
+    EmptyString))))))))))))))))))
+| EPayload ->
+  s2t (String ((Ascii (false, false, false, false, true, false, true,
+    false)), (String ((Ascii (true, false, false, false, false, true, true,
+    false)), (String ((Ascii (true, false, false, true, true, true, true,
+    false)), (String ((Ascii (false, false, true, true, false, true, true,
+    false)), (String ((Ascii (true, true, true, true, false, true, true,
+    false)), (String ((Ascii (true, false, false, false, false, true, true,
+    false)), (String ((Ascii (false, false, true, false, false, true, true,
+    false)), EmptyString))))))))))))))
+
+(** val show_sstate : sstate -> text **)
+
+let show_sstate = function
+| SWrite w ->
+  app
+    (s2t (String ((Ascii (true, true, true, false, true, false, true,
+      false)), EmptyString))) (show_N w)
+| SFlush ->
+  s2t (String ((Ascii (false, true, true, false, false, false, true, false)),
+    EmptyString))
+| SSent ->
+  s2t (String ((Ascii (true, true, false, false, true, false, true, false)),
+    EmptyString))
+
+(** val show_caction : caction -> text **)
+
+let show_caction = function
+| CPubAck (p, r) ->
+  app
+    (s2t (String ((Ascii (true, false, false, false, false, false, true,
+      false)), EmptyString)))
+    (app (show_N p)
+      (app
+        (s2t (String ((Ascii (false, true, false, true, true, true, false,
+          false)), EmptyString)))
+        (app (show_N r)
+          (s2t (String ((Ascii (false, true, false, true, true, true, false,
+            false)), EmptyString))))))
+| CPubRec (p, r) ->
+  app
+    (s2t (String ((Ascii (false, true, false, false, true, false, true,
+      false)), EmptyString)))
+    (app (show_N p)
+      (app
+        (s2t (String ((Ascii (false, true, false, true, true, true, false,
+          false)), EmptyString)))
+        (app (show_N r)
+          (s2t (String ((Ascii (false, true, false, true, true, true, false,
+            false)), EmptyString))))))
+| CPubComp (p, r) ->
+  app
+    (s2t (String ((Ascii (true, true, false, false, false, false, true,
+      false)), EmptyString)))
+    (app (show_N p)
+      (app
+        (s2t (String ((Ascii (false, true, false, true, true, true, false,
+          false)), EmptyString)))
+        (app (show_N r)
+          (s2t (String ((Ascii (false, true, false, true, true, true, false,
+            false)), EmptyString))))))
+| CPing ->
+  s2t (String ((Ascii (false, false, false, false, true, false, true,
+    false)), (String ((Ascii (false, true, false, true, true, true, false,
+    false)), EmptyString))))
+
+(** val show_rentry : outbound -> rentry -> text **)
+
+let show_rentry o e =
+  app (show_N e.re_pid)
+    (app
+      (s2t (String ((Ascii (false, true, false, true, true, true, false,
+        false)), EmptyString)))
+      (app (show_N e.re_off)
+        (app
+          (s2t (String ((Ascii (false, true, false, true, true, true, false,
+            false)), EmptyString)))
+          (app (show_N e.re_len)
+            (app
+              (s2t (String ((Ascii (false, true, false, true, true, true,
+                false, false)), EmptyString)))
+              (app (show_sstate e.re_st)
+                (app
+                  (s2t (String ((Ascii (false, true, false, true, true, true,
+                    false, false)), EmptyString)))
+                  (if N.leb (N.add e.re_off e.re_len) (ob_cap o)
+                   then hex (retained_packet o e.re_off e.re_len)
+                   else s2t (String ((Ascii (true, false, false, false,
+                          false, true, false, false)), EmptyString))))))))))
+
+(** val show_snapshot : session -> text **)
+
+let show_snapshot s =
+  let o = s.s_ob in
+  let r = s.s_rt in
+  app
+    (s2t (String ((Ascii (true, true, false, false, false, true, true,
+      false)), (String ((Ascii (true, false, false, false, false, true, true,
+      false)), (String ((Ascii (false, false, false, false, true, true, true,
+      false)), (String ((Ascii (true, false, true, true, true, true, false,
+      false)), EmptyString)))))))))
+    (app (show_N (ob_cap o))
+      (app
+        (s2t (String ((Ascii (false, false, false, false, false, true, false,
+          false)), (String ((Ascii (true, false, true, false, true, true,
+          true, false)), (String ((Ascii (true, true, false, false, true,
+          true, true, false)), (String ((Ascii (true, false, true, false,
+          false, true, true, false)), (String ((Ascii (false, false, true,
+          false, false, true, true, false)), (String ((Ascii (true, false,
+          true, true, true, true, false, false)), EmptyString)))))))))))))
+        (app (show_N o.ob_used)
+          (app
+            (s2t (String ((Ascii (false, false, false, false, false, true,
+              false, false)), (String ((Ascii (false, true, false, false,
+              true, true, true, false)), (String ((Ascii (true, false, true,
+              false, false, true, true, false)), (String ((Ascii (false,
+              false, true, false, true, true, true, false)), (String ((Ascii
+              (true, false, true, true, true, true, false, false)), (String
+              ((Ascii (true, true, false, true, true, false, true, false)),
+              EmptyString)))))))))))))
+            (app
+              (join
+                (s2t (String ((Ascii (false, false, true, true, false, true,
+                  false, false)), EmptyString)))
+                (map (show_rentry o) o.ob_ret))
+              (app
+                (s2t (String ((Ascii (true, false, true, true, true, false,
+                  true, false)), (String ((Ascii (false, false, false, false,
+                  false, true, false, false)), (String ((Ascii (true, true,
+                  false, false, false, true, true, false)), (String ((Ascii
+                  (false, false, true, false, true, true, true, false)),
+                  (String ((Ascii (false, false, true, true, false, true,
+                  true, false)), (String ((Ascii (true, false, true, true,
+                  true, true, false, false)), (String ((Ascii (true, true,
+                  false, true, true, false, true, false)),
+                  EmptyString)))))))))))))))
+                (app
+                  (join
+                    (s2t (String ((Ascii (false, false, true, true, false,
+                      true, false, false)), EmptyString)))
+                    (map (fun e ->
+                      app (show_caction e.ce_act) (show_sstate e.ce_st))
+                      o.ob_ctl))
+                  (app
+                    (s2t (String ((Ascii (true, false, true, true, true,
+                      false, true, false)), (String ((Ascii (false, false,
+                      false, false, false, true, false, false)), (String
+                      ((Ascii (false, true, false, false, true, true, true,
+                      false)), (String ((Ascii (true, false, true, false,
+                      false, true, true, false)), (String ((Ascii (false,
+                      false, true, true, false, true, true, false)), (String
+                      ((Ascii (true, false, true, true, true, true, false,
+                      false)), (String ((Ascii (true, true, false, true,
+                      true, false, true, false)), EmptyString)))))))))))))))
+                    (app
+                      (join
+                        (s2t (String ((Ascii (false, false, true, true,
+                          false, true, false, false)), EmptyString)))
+                        (map (fun e ->
+                          app (show_N e.le_pid)
+                            (app
+                              (s2t (String ((Ascii (false, true, false, true,
+                                true, true, false, false)), EmptyString)))
+                              (app (show_N e.le_rc)
+                                (app
+                                  (s2t (String ((Ascii (false, true, false,
+                                    true, true, true, false, false)),
+                                    EmptyString))) (show_sstate e.le_st)))))
+                          o.ob_rel))
+                      (app
+                        (s2t (String ((Ascii (true, false, true, true, true,
+                          false, true, false)), (String ((Ascii (false,
+                          false, false, false, false, true, false, false)),
+                          (String ((Ascii (false, false, false, false, true,
+                          true, true, false)), (String ((Ascii (true, false,
+                          false, true, false, true, true, false)), (String
+                          ((Ascii (false, false, true, false, false, true,
+                          true, false)), (String ((Ascii (true, false, true,
+                          true, true, true, false, false)),
+                          EmptyString)))))))))))))
+                        (app (show_N s.s_pid)
+                          (app
+                            (s2t (String ((Ascii (false, false, false, false,
+                              false, true, false, false)), (String ((Ascii
+                              (true, true, true, false, false, true, true,
+                              false)), (String ((Ascii (true, false, true,
+                              false, false, true, true, false)), (String
+                              ((Ascii (false, true, true, true, false, true,
+                              true, false)), (String ((Ascii (true, false,
+                              true, true, true, true, false, false)),
+                              EmptyString)))))))))))
+                            (app (show_N s.s_gen)
+                              (app
+                                (s2t (String ((Ascii (false, false, false,
+                                  false, false, true, false, false)), (String
+                                  ((Ascii (true, true, false, false, true,
+                                  true, true, false)), (String ((Ascii
+                                  (false, false, false, false, true, true,
+                                  true, false)), (String ((Ascii (true,
+                                  false, true, true, true, true, false,
+                                  false)), EmptyString)))))))))
+                                (app (show_bool s.s_sp)
+                                  (app
+                                    (s2t (String ((Ascii (false, false,
+                                      false, false, false, true, false,
+                                      false)), (String ((Ascii (true, true,
+                                      false, false, true, true, true,
+                                      false)), (String ((Ascii (false, true,
+                                      false, false, true, true, true,
+                                      false)), (String ((Ascii (false, true,
+                                      true, false, true, true, true, false)),
+                                      (String ((Ascii (true, false, true,
+                                      true, true, true, false, false)),
+                                      (String ((Ascii (true, true, false,
+                                      true, true, false, true, false)),
+                                      EmptyString)))))))))))))
+                                    (app
+                                      (join
+                                        (s2t (String ((Ascii (false, false,
+                                          true, true, false, true, false,
+                                          false)), EmptyString)))
+                                        (map show_N s.s_srv))
+                                      (app
+                                        (s2t (String ((Ascii (true, false,
+                                          true, true, true, false, true,
+                                          false)), (String ((Ascii (false,
+                                          false, false, false, false, true,
+                                          false, false)), (String ((Ascii
+                                          (true, false, false, false, true,
+                                          true, true, false)), (String
+                                          ((Ascii (true, false, true, false,
+                                          true, true, true, false)), (String
+                                          ((Ascii (true, true, true, true,
+                                          false, true, true, false)), (String
+                                          ((Ascii (false, false, true, false,
+                                          true, true, true, false)), (String
+                                          ((Ascii (true, false, false, false,
+                                          false, true, true, false)), (String
+                                          ((Ascii (true, false, true, true,
+                                          true, true, false, false)),
+                                          EmptyString)))))))))))))))))
+                                        (app (show_N r.rt_quota)
+                                          (app
+                                            (s2t (String ((Ascii (false,
+                                              false, false, false, false,
+                                              true, false, false)), (String
+                                              ((Ascii (true, false, true,
+                                              true, false, true, true,
+                                              false)), (String ((Ascii (true,
+                                              false, false, false, false,
+                                              true, true, false)), (String
+                                              ((Ascii (false, false, false,
+                                              true, true, true, true,
+                                              false)), (String ((Ascii (true,
+                                              false, false, false, true,
+                                              true, true, false)), (String
+                                              ((Ascii (true, false, true,
+                                              false, true, true, true,
+                                              false)), (String ((Ascii (true,
+                                              true, true, true, false, true,
+                                              true, false)), (String ((Ascii
+                                              (false, false, true, false,
+                                              true, true, true, false)),
+                                              (String ((Ascii (true, false,
+                                              false, false, false, true,
+                                              true, false)), (String ((Ascii
+                                              (true, false, true, true, true,
+                                              true, false, false)),
+                                              EmptyString)))))))))))))))))))))
+                                            (app (show_N r.rt_maxquota)
+                                              (app
+                                                (s2t (String ((Ascii (false,
+                                                  false, false, false, false,
+                                                  true, false, false)),
+                                                  (String ((Ascii (true,
+                                                  false, true, true, false,
+                                                  true, true, false)),
+                                                  (String ((Ascii (false,
+                                                  false, false, false, true,
+                                                  true, true, false)),
+                                                  (String ((Ascii (true,
+                                                  true, false, false, true,
+                                                  true, true, false)),
+                                                  (String ((Ascii (true,
+                                                  false, true, true, true,
+                                                  true, false, false)),
+                                                  EmptyString)))))))))))
+                                                (app (show_optN r.rt_mps)
+                                                  (app
+                                                    (s2t (String ((Ascii
+                                                      (false, false, false,
+                                                      false, false, true,
+                                                      false, false)), (String
+                                                      ((Ascii (true, false,
+                                                      true, true, false,
+                                                      true, true, false)),
+                                                      (String ((Ascii (true,
+                                                      false, false, false,
+                                                      false, true, true,
+                                                      false)), (String
+                                                      ((Ascii (false, false,
+                                                      false, true, true,
+                                                      true, true, false)),
+                                                      (String ((Ascii (true,
+                                                      false, false, false,
+                                                      true, true, true,
+                                                      false)), (String
+                                                      ((Ascii (true, true,
+                                                      true, true, false,
+                                                      true, true, false)),
+                                                      (String ((Ascii (true,
+                                                      true, false, false,
+                                                      true, true, true,
+                                                      false)), (String
+                                                      ((Ascii (true, false,
+                                                      true, true, true, true,
+                                                      false, false)),
+                                                      EmptyString)))))))))))))))))
+                                                    (app
+                                                      (match r.rt_maxqos with
+                                                       | Some q ->
+                                                         show_N (qos_n q)
+                                                       | None ->
+                                                         s2t (String ((Ascii
+                                                           (true, false,
+                                                           true, true, false,
+                                                           true, false,
+                                                           false)),
+                                                           EmptyString)))
+                                                      (app
+                                                        (s2t (String ((Ascii
+                                                          (false, false,
+                                                          false, false,
+                                                          false, true, false,
+                                                          false)), (String
+                                                          ((Ascii (true,
+                                                          true, false, true,
+                                                          false, true, true,
+                                                          false)), (String
+                                                          ((Ascii (true,
+                                                          false, false,
+                                                          false, false, true,
+                                                          true, false)),
+                                                          (String ((Ascii
+                                                          (true, false, true,
+                                                          true, true, true,
+                                                          false, false)),
+                                                          EmptyString)))))))))
+                                                        (app
+                                                          (show_N r.rt_ka_ms)
+                                                          (app
+                                                            (s2t (String
+                                                              ((Ascii (false,
+                                                              false, false,
+                                                              false, false,
+                                                              true, false,
+                                                              false)),
+                                                              (String ((Ascii
+                                                              (false, true,
+                                                              true, true,
+                                                              false, true,
+                                                              true, false)),
+                                                              (String ((Ascii
+                                                              (false, false,
+                                                              false, false,
+                                                              true, true,
+                                                              true, false)),
+                                                              (String ((Ascii
+                                                              (true, false,
+                                                              true, true,
+                                                              true, true,
+                                                              false, false)),
+                                                              EmptyString)))))))))
+                                                            (app
+                                                              (show_optN
+                                                                r.rt_next_ping)
+                                                              (app
+                                                                (s2t (String
+                                                                  ((Ascii
+                                                                  (false,
+                                                                  false,
+                                                                  false,
+                                                                  false,
+                                                                  false,
+                                                                  true,
+                                                                  false,
+                                                                  false)),
+                                                                  (String
+                                                                  ((Ascii
+                                                                  (false,
+                                                                  false,
+                                                                  false,
+                                                                  false,
+                                                                  true, true,
+                                                                  true,
+                                                                  false)),
+                                                                  (String
+                                                                  ((Ascii
+                                                                  (false,
+                                                                  false,
+                                                                  true,
+                                                                  false,
+                                                                  true, true,
+                                                                  true,
+                                                                  false)),
+                                                                  (String
+                                                                  ((Ascii
+                                                                  (true,
+                                                                  false,
+                                                                  true, true,
+                                                                  true, true,
+                                                                  false,
+                                                                  false)),
+                                                                  EmptyString)))))))))
+                                                                (app
+                                                                  (show_optN
+                                                                    r.rt_ping_timeout)
+                                                                  (app
+                                                                    (s2t
+                                                                    (String
+                                                                    ((Ascii
+                                                                    (false,
+                                                                    false,
+                                                                    false,
+                                                                    false,
+                                                                    false,
+                                                                    true,
+                                                                    false,
+                                                                    false)),
+                                                                    (String
+                                                                    ((Ascii
+                                                                    (false,
+                                                                    true,
+                                                                    false,
+                                                                    false,
+                                                                    true,
+                                                                    true,
+                                                                    true,
+                                                                    false)),
+                                                                    (String
+                                                                    ((Ascii
+                                                                    (true,
+                                                                    false,
+                                                                    true,
+                                                                    false,
+                                                                    false,
+                                                                    true,
+                                                                    true,
+                                                                    false)),
+                                                                    (String
+                                                                    ((Ascii
+                                                                    (true,
+                                                                    true,
+                                                                    false,
+                                                                    false,
+                                                                    true,
+                                                                    true,
+                                                                    true,
+                                                                    false)),
+                                                                    (String
+                                                                    ((Ascii
+                                                                    (true,
+                                                                    false,
+                                                                    true,
+                                                                    false,
+                                                                    true,
+                                                                    true,
+                                                                    true,
+                                                                    false)),
+                                                                    (String
+                                                                    ((Ascii
+                                                                    (true,
+                                                                    false,
+                                                                    true,
+                                                                    true,
+                                                                    false,
+                                                                    true,
+                                                                    true,
+                                                                    false)),
+                                                                    (String
+                                                                    ((Ascii
+                                                                    (true,
+                                                                    false,
+                                                                    true,
+                                                                    false,
+                                                                    false,
+                                                                    true,
+                                                                    true,
+                                                                    false)),
+                                                                    (String
+                                                                    ((Ascii
+                                                                    (false,
+                                                                    false,
+                                                                    true,
+                                                                    false,
+                                                                    false,
+                                                                    true,
+                                                                    true,
+                                                                    false)),
+                                                                    (String
+                                                                    ((Ascii
+                                                                    (true,
+                                                                    false,
+                                                                    true,
+                                                                    true,
+                                                                    true,
+                                                                    true,
+                                                                    false,
+                                                                    false)),
+                                                                    EmptyString)))))))))))))))))))
+                                                                    (app
+                                                                    (show_bool
+                                                                    r.rt_resumed)
+                                                                    (app
+                                                                    (s2t
+                                                                    (String
+                                                                    ((Ascii
+                                                                    (false,
+                                                                    false,
+                                                                    false,
+                                                                    false,
+                                                                    false,
+                                                                    true,
+                                                                    false,
+                                                                    false)),
+                                                                    (String
+                                                                    ((Ascii
+                                                                    (false,
+                                                                    true,
+                                                                    false,
+                                                                    false,
+                                                                    true,
+                                                                    true,
+                                                                    true,
+                                                                    false)),
+                                                                    (String
+                                                                    ((Ascii
+                                                                    (false,
+                                                                    true,
+                                                                    false,
+                                                                    false,
+                                                                    false,
+                                                                    true,
+                                                                    true,
+                                                                    false)),
+                                                                    (String
+                                                                    ((Ascii
+                                                                    (true,
+                                                                    false,
+                                                                    true,
+                                                                    true,
+                                                                    true,
+                                                                    true,
+                                                                    false,
+                                                                    false)),
+                                                                    EmptyString)))))))))
+                                                                    (app
+                                                                    (show_N
+                                                                    (read_bytes
+                                                                    s.s_reader))
+                                                                    (app
+                                                                    (s2t
+                                                                    (String
+                                                                    ((Ascii
+                                                                    (false,
+                                                                    false,
+                                                                    false,
+                                                                    false,
+                                                                    false,
+                                                                    true,
+                                                                    false,
+                                                                    false)),
+                                                                    (String
+                                                                    ((Ascii
+                                                                    (false,
+                                                                    false,
+                                                                    false,
+                                                                    false,
+                                                                    true,
+                                                                    true,
+                                                                    true,
+                                                                    false)),
+                                                                    (String
+                                                                    ((Ascii
+                                                                    (false,
+                                                                    false,
+                                                                    true,
+                                                                    true,
+                                                                    false,
+                                                                    true,
+                                                                    true,
+                                                                    false)),
+                                                                    (String
+                                                                    ((Ascii
+                                                                    (true,
+                                                                    false,
+                                                                    true,
+                                                                    true,
+                                                                    true,
+                                                                    true,
+                                                                    false,
+                                                                    false)),
+                                                                    EmptyString)))))))))
+                                                                    (app
+                                                                    (show_optN
+                                                                    s.s_reader.rplen)
+                                                                    (app
+                                                                    (s2t
+                                                                    (String
+                                                                    ((Ascii
+                                                                    (false,
+                                                                    false,
+                                                                    false,
+                                                                    false,
+                                                                    false,
+                                                                    true,
+                                                                    false,
+                                                                    false)),
+                                                                    (String
+                                                                    ((Ascii
+                                                                    (true,
+                                                                    true,
+                                                                    false,
+                                                                    false,
+                                                                    false,
+                                                                    true,
+                                                                    true,
+                                                                    false)),
+                                                                    (String
+                                                                    ((Ascii
+                                                                    (true,
+                                                                    false,
+                                                                    false,
+                                                                    true,
+                                                                    false,
+                                                                    true,
+                                                                    true,
+                                                                    false)),
+                                                                    (String
+                                                                    ((Ascii
+                                                                    (false,
+                                                                    false,
+                                                                    true,
+                                                                    false,
+                                                                    false,
+                                                                    true,
+                                                                    true,
+                                                                    false)),
+                                                                    (String
+                                                                    ((Ascii
+                                                                    (true,
+                                                                    false,
+                                                                    true,
+                                                                    true,
+                                                                    true,
+                                                                    true,
+                                                                    false,
+                                                                    false)),
+                                                                    EmptyString)))))))))))
+                                                                    (hex
+                                                                    s.s_client_id)))))))))))))))))))))))))))))))))))))))
+
+(** val show_status : opstatus -> text **)
+
+let show_status = function
+| StPending ->
+  s2t (String ((Ascii (false, false, false, false, true, false, true,
+    false)), EmptyString))
+| StComplete ->
+  s2t (String ((Ascii (true, true, false, false, false, false, true, false)),
+    EmptyString))
+| StInvalidated ->
+  s2t (String ((Ascii (true, false, false, true, false, false, true, false)),
+    EmptyString))
+
+(** val show_state : world -> text **)
+
+let show_state w =
+  app
+    (s2t (String ((Ascii (true, true, false, false, true, true, true,
+      false)), (String ((Ascii (false, false, false, false, false, true,
+      false, false)), EmptyString)))))
+    (app (show_snapshot w.w_sess)
+      (app
+        (s2t (String ((Ascii (false, false, false, false, false, true, false,
+          false)), (String ((Ascii (true, true, false, false, false, true,
+          true, false)), (String ((Ascii (true, true, true, true, false,
+          true, true, false)), (String ((Ascii (false, true, true, true,
+          false, true, true, false)), (String ((Ascii (false, true, true,
+          true, false, true, true, false)), (String ((Ascii (true, false,
+          true, true, true, true, false, false)), EmptyString)))))))))))))
+        (app (show_bool w.w_conn)
+          (app
+            (s2t (String ((Ascii (false, false, false, false, false, true,
+              false, false)), (String ((Ascii (false, false, true, true,
+              false, true, true, false)), (String ((Ascii (true, false,
+              false, true, false, true, true, false)), (String ((Ascii
+              (false, true, true, false, true, true, true, false)), (String
+              ((Ascii (true, false, true, false, false, true, true, false)),
+              (String ((Ascii (true, false, true, true, true, true, false,
+              false)), EmptyString)))))))))))))
+            (app (show_bool ((&&) w.w_conn w.w_live))
+              (app
+                (s2t (String ((Ascii (false, false, false, false, false,
+                  true, false, false)), (String ((Ascii (false, true, true,
+                  true, false, true, true, false)), (String ((Ascii (true,
+                  true, true, true, false, true, true, false)), (String
+                  ((Ascii (true, true, true, false, true, true, true,
+                  false)), (String ((Ascii (true, false, true, true, true,
+                  true, false, false)), EmptyString)))))))))))
+                (app (show_N w.w_now)
+                  (app
+                    (s2t (String ((Ascii (false, false, false, false, false,
+                      true, false, false)), (String ((Ascii (true, true,
+                      false, false, false, true, true, false)), (String
+                      ((Ascii (false, false, false, false, true, true, true,
+                      false)), (String ((Ascii (true, false, true, true,
+                      true, true, false, false)), EmptyString)))))))))
+                    (app
+                      (if w.w_conn
+                       then app
+                              (show_bool
+                                ((&&) w.w_live (sess_can_publish w.w_sess Q0)))
+                              (app
+                                (show_bool
+                                  ((&&) w.w_live
+                                    (sess_can_publish w.w_sess Q1)))
+                                (show_bool
+                                  ((&&) w.w_live
+                                    (sess_can_publish w.w_sess Q2))))
+                       else s2t (String ((Ascii (true, false, true, true,
+                              false, true, false, false)), (String ((Ascii
+                              (true, false, true, true, false, true, false,
+                              false)), (String ((Ascii (true, false, true,
+                              true, false, true, false, false)),
+                              EmptyString)))))))
+                      (app
+                        (s2t (String ((Ascii (false, false, false, false,
+                          false, true, false, false)), (String ((Ascii
+                          (false, false, false, false, true, true, true,
+                          false)), (String ((Ascii (true, false, false,
+                          false, true, true, true, false)), (String ((Ascii
+                          (true, false, true, true, true, true, false,
+                          false)), EmptyString)))))))))
+                        (app (show_bool (is_quiescent w.w_sess.s_ob))
+                          (app
+                            (s2t (String ((Ascii (false, false, false, false,
+                              false, true, false, false)), (String ((Ascii
+                              (true, false, true, false, false, true, true,
+                              false)), (String ((Ascii (false, true, true,
+                              false, true, true, true, false)), (String
+                              ((Ascii (true, false, true, true, true, true,
+                              false, false)), EmptyString)))))))))
+                            (app
+                              (if w.w_conn
+                               then show_N w.w_event
+                               else s2t (String ((Ascii (true, false, true,
+                                      true, false, true, false, false)),
+                                      EmptyString)))
+                              (app
+                                (s2t (String ((Ascii (false, false, false,
+                                  false, false, true, false, false)), (String
+                                  ((Ascii (false, false, false, true, false,
+                                  true, true, false)), (String ((Ascii (true,
+                                  false, true, true, true, true, false,
+                                  false)), (String ((Ascii (true, true,
+                                  false, true, true, false, true, false)),
+                                  EmptyString)))))))))
+                                (app
+                                  (join
+                                    (s2t (String ((Ascii (false, false, true,
+                                      true, false, true, false, false)),
+                                      EmptyString)))
+                                    (map (fun o ->
+                                      show_status (status w.w_sess o))
+                                      w.w_handles))
+                                  (s2t (String ((Ascii (true, false, true,
+                                    true, true, false, true, false)),
+                                    EmptyString))))))))))))))))))
+
+(** val show_msg : rpacket -> text **)
+
+let show_msg = function
+| RPublish (topic, _, q, r, _, ps, payload) ->
+  app
+    (s2t (String ((Ascii (true, false, true, true, false, true, true,
+      false)), (String ((Ascii (true, true, false, false, true, true, true,
+      false)), (String ((Ascii (true, true, true, false, false, true, true,
+      false)), (String ((Ascii (false, false, false, false, false, true,
+      false, false)), (String ((Ascii (false, false, true, false, true, true,
+      true, false)), (String ((Ascii (true, false, true, true, true, true,
+      false, false)), (String ((Ascii (false, false, false, true, true, true,
+      true, false)), EmptyString)))))))))))))))
+    (app (hex topic)
+      (app
+        (s2t (String ((Ascii (false, false, false, false, false, true, false,
+          false)), (String ((Ascii (false, false, false, false, true, true,
+          true, false)), (String ((Ascii (true, false, true, true, true,
+          true, false, false)), (String ((Ascii (false, false, false, true,
+          true, true, true, false)), EmptyString)))))))))
+        (app (hex payload)
+          (app
+            (s2t (String ((Ascii (false, false, false, false, false, true,
+              false, false)), (String ((Ascii (true, false, false, false,
+              true, true, true, false)), (String ((Ascii (true, false, true,
+              true, true, true, false, false)), EmptyString)))))))
+            (app (show_N (qos_n q))
+              (app
+                (s2t (String ((Ascii (false, false, false, false, false,
+                  true, false, false)), (String ((Ascii (false, true, false,
+                  false, true, true, true, false)), (String ((Ascii (true,
+                  false, true, true, true, true, false, false)),
+                  EmptyString)))))))
+                (app (show_bool r)
+                  (app
+                    (s2t (String ((Ascii (false, false, false, false, false,
+                      true, false, false)), (String ((Ascii (false, false,
+                      false, false, true, true, true, false)), (String
+                      ((Ascii (false, true, false, false, true, true, true,
+                      false)), (String ((Ascii (true, true, true, true,
+                      false, true, true, false)), (String ((Ascii (false,
+                      false, false, false, true, true, true, false)), (String
+                      ((Ascii (true, true, false, false, true, true, true,
+                      false)), (String ((Ascii (true, false, true, true,
+                      true, true, false, false)), EmptyString)))))))))))))))
+                    (show_props_block ps)))))))))
+| _ ->
+  s2t (String ((Ascii (true, false, true, true, false, true, true, false)),
+    (String ((Ascii (true, true, false, false, true, true, true, false)),
+    (String ((Ascii (true, true, true, false, false, true, true, false)),
+    (String ((Ascii (false, false, false, false, false, true, false, false)),
+    (String ((Ascii (true, true, true, true, true, true, false, false)),
+    EmptyString))))))))))
+
+(** val show_op : op -> text **)
+
+let show_op o =
+  app
+    (s2t (String ((Ascii (true, true, true, true, false, true, true, false)),
+      (String ((Ascii (false, false, false, false, true, true, true, false)),
+      (String ((Ascii (false, false, false, false, false, true, false,
+      false)), EmptyString)))))))
+    (app (show_N o.op_kind)
+      (app
+        (s2t (String ((Ascii (false, false, false, false, false, true, false,
+          false)), EmptyString)))
+        (app (show_N o.op_pid)
+          (app
+            (s2t (String ((Ascii (false, false, false, false, false, true,
+              false, false)), EmptyString))) (show_N o.op_gen)))))
+
+(** val show_outcome : ('a1 -> text) -> 'a1 outcome -> text **)
+
+let show_outcome f o =
+  app
+    (s2t (String ((Ascii (true, false, true, true, true, true, false,
+      false)), (String ((Ascii (false, false, false, false, false, true,
+      false, false)), EmptyString)))))
+    (match o with
+     | ODone a ->
+       app
+         (s2t (String ((Ascii (true, true, true, true, false, true, true,
+           false)), (String ((Ascii (true, true, false, true, false, true,
+           true, false)), (String ((Ascii (false, false, false, false, false,
+           true, false, false)), EmptyString))))))) (f a)
+     | OFail e ->
+       app
+         (s2t (String ((Ascii (true, false, true, false, false, true, true,
+           false)), (String ((Ascii (false, true, false, false, true, true,
+           true, false)), (String ((Ascii (false, true, false, false, true,
+           true, true, false)), (String ((Ascii (false, false, false, false,
+           false, true, false, false)), EmptyString))))))))) (show_err e)
+     | OCancel ->
+       s2t (String ((Ascii (true, true, false, false, false, true, true,
+         false)), (String ((Ascii (true, false, false, false, false, true,
+         true, false)), (String ((Ascii (false, true, true, true, false,
+         true, true, false)), (String ((Ascii (true, true, false, false,
+         false, true, true, false)), (String ((Ascii (true, false, true,
+         false, false, true, true, false)), (String ((Ascii (false, false,
+         true, true, false, true, true, false)), (String ((Ascii (false,
+         false, true, true, false, true, true, false)), (String ((Ascii
+         (true, false, true, false, false, true, true, false)), (String
+         ((Ascii (false, false, true, false, false, true, true, false)),
+         EmptyString))))))))))))))))))
+     | OFuel ->
+       s2t (String ((Ascii (false, true, true, false, false, false, true,
+         false)), (String ((Ascii (true, false, true, false, true, false,
+         true, false)), (String ((Ascii (true, false, true, false, false,
+         false, true, false)), (String ((Ascii (false, false, true, true,
+         false, false, true, false)), EmptyString))))))))
+     | OPanic ->
+       s2t (String ((Ascii (false, false, false, false, true, false, true,
+         false)), (String ((Ascii (true, false, false, false, false, false,
+         true, false)), (String ((Ascii (false, true, true, true, false,
+         false, true, false)), (String ((Ascii (true, false, false, true,
+         false, false, true, false)), (String ((Ascii (true, true, false,
+         false, false, false, true, false)), EmptyString)))))))))))
+
+(** val feed : world -> n -> bytes -> world **)
+
+let feed w delay bs =
+  let t = N.max (N.add w.w_now delay) w.w_last_arrival in
+  (match bs with
+   | [] -> w
+   | _ :: _ -> upd_inq w (app w.w_inq ((t, bs) :: [])) t)
+
+(** val noconn : world -> world **)
+
+let noconn w =
+  upd_log w
+    (s2t (String ((Ascii (true, false, true, true, true, true, false,
+      false)), (String ((Ascii (false, false, false, false, false, true,
+      false, false)), (String ((Ascii (false, true, true, true, false, true,
+      true, false)), (String ((Ascii (true, true, true, true, false, true,
+      true, false)), (String ((Ascii (true, true, false, false, false, true,
+      true, false)), (String ((Ascii (true, true, true, true, false, true,
+      true, false)), (String ((Ascii (false, true, true, true, false, true,
+      true, false)), (String ((Ascii (false, true, true, true, false, true,
+      true, false)), EmptyString)))))))))))))))))
+
+(** val record_op : world -> op option outcome -> world **)
+
+let record_op w = function
+| ODone a ->
+  (match a with
+   | Some h -> upd_handles w (app w.w_handles (h :: []))
+   | None -> w)
+| _ -> w
+
+(** val run_action : action -> world -> world **)
+
+let run_action a w =
+  match a with
+  | AConnect chunks ->
+    let w0 = upd_txbuf (upd_inq (upd_live w false false N0) [] w.w_now) [] in
+    let w1 = fold_left (fun w1 c -> feed w1 (fst c) (snd c)) chunks w0 in
+    let (w2, r) = op_connect fUEL w1 in
+    let w3 =
+      match r with
+      | ODone ev -> upd_live w2 true true ev
+      | _ -> upd_live w2 false false N0
+    in
+    upd_log w3
+      (show_outcome (fun ev ->
+        if N.eqb ev N0
+        then s2t (String ((Ascii (true, true, false, false, false, true,
+               true, false)), (String ((Ascii (true, true, true, true, false,
+               true, true, false)), (String ((Ascii (false, true, true, true,
+               false, true, true, false)), (String ((Ascii (false, true,
+               true, true, false, true, true, false)), (String ((Ascii (true,
+               false, true, false, false, true, true, false)), (String
+               ((Ascii (true, true, false, false, false, true, true, false)),
+               (String ((Ascii (false, false, true, false, true, true, true,
+               false)), (String ((Ascii (true, false, true, false, false,
+               true, true, false)), (String ((Ascii (false, false, true,
+               false, false, true, true, false)),
+               EmptyString))))))))))))))))))
+        else s2t (String ((Ascii (false, true, false, false, true, true,
+               true, false)), (String ((Ascii (true, false, true, false,
+               false, true, true, false)), (String ((Ascii (true, true,
+               false, false, false, true, true, false)), (String ((Ascii
+               (true, true, true, true, false, true, true, false)), (String
+               ((Ascii (false, true, true, true, false, true, true, false)),
+               (String ((Ascii (false, true, true, true, false, true, true,
+               false)), (String ((Ascii (true, false, true, false, false,
+               true, true, false)), (String ((Ascii (true, true, false,
+               false, false, true, true, false)), (String ((Ascii (false,
+               false, true, false, true, true, true, false)), (String ((Ascii
+               (true, false, true, false, false, true, true, false)), (String
+               ((Ascii (false, false, true, false, false, true, true,
+               false)), EmptyString))))))))))))))))))))))) r)
+  | APublish r ->
+    if negb w.w_conn
+    then noconn w
+    else let (w1, o) = op_publish fUEL r w in
+         upd_log (record_op w1 o)
+           (show_outcome (fun x ->
+             match x with
+             | Some h -> show_op h
+             | None ->
+               s2t (String ((Ascii (false, true, true, true, false, true,
+                 true, false)), (String ((Ascii (true, true, true, true,
+                 false, true, true, false)), (String ((Ascii (false, true,
+                 true, true, false, true, true, false)), (String ((Ascii
+                 (true, false, true, false, false, true, true, false)),
+                 EmptyString))))))))) o)
+  | ASubscribe (ts, ps) ->
+    if negb w.w_conn
+    then noconn w
+    else let (w1, o) = op_subscribe fUEL ts ps w in
+         upd_log (record_op w1 o)
+           (show_outcome (fun x ->
+             match x with
+             | Some h -> show_op h
+             | None ->
+               s2t (String ((Ascii (false, true, true, true, false, true,
+                 true, false)), (String ((Ascii (true, true, true, true,
+                 false, true, true, false)), (String ((Ascii (false, true,
+                 true, true, false, true, true, false)), (String ((Ascii
+                 (true, false, true, false, false, true, true, false)),
+                 EmptyString))))))))) o)
+  | AUnsubscribe (ts, ps) ->
+    if negb w.w_conn
+    then noconn w
+    else let (w1, o) = op_unsubscribe fUEL ts ps w in
+         upd_log (record_op w1 o)
+           (show_outcome (fun x ->
+             match x with
+             | Some h -> show_op h
+             | None ->
+               s2t (String ((Ascii (false, true, true, true, false, true,
+                 true, false)), (String ((Ascii (true, true, true, true,
+                 false, true, true, false)), (String ((Ascii (false, true,
+                 true, true, false, true, true, false)), (String ((Ascii
+                 (true, false, true, false, false, true, true, false)),
+                 EmptyString))))))))) o)
+  | ADisconnect d ->
+    if negb w.w_conn
+    then noconn w
+    else let (w1, o) = op_disconnect fUEL d w in
+         upd_log w1
+           (show_outcome (fun _ ->
+             s2t (String ((Ascii (false, false, true, false, false, true,
+               true, false)), (String ((Ascii (true, true, true, true, false,
+               true, true, false)), (String ((Ascii (false, true, true, true,
+               false, true, true, false)), (String ((Ascii (true, false,
+               true, false, false, true, true, false)), EmptyString)))))))))
+             o)
+  | ADrive ->
+    if negb w.w_conn
+    then noconn w
+    else let (w1, o) = op_drive fUEL w in
+         upd_log w1
+           (show_outcome (fun x ->
+             match x with
+             | Some p -> show_msg p
+             | None ->
+               s2t (String ((Ascii (false, true, true, true, false, true,
+                 true, false)), (String ((Ascii (true, true, true, true,
+                 false, true, true, false)), (String ((Ascii (false, true,
+                 true, true, false, true, true, false)), (String ((Ascii
+                 (true, false, true, false, false, true, true, false)),
+                 EmptyString))))))))) o)
+  | APoll ->
+    if negb w.w_conn
+    then noconn w
+    else let (w1, o) = op_poll fUEL w in
+         upd_log w1
+           (show_outcome (fun x ->
+             match x with
+             | Some p -> show_msg p
+             | None ->
+               s2t (String ((Ascii (false, true, true, true, false, true,
+                 true, false)), (String ((Ascii (true, true, true, true,
+                 false, true, true, false)), (String ((Ascii (false, true,
+                 true, true, false, true, true, false)), (String ((Ascii
+                 (true, false, true, false, false, true, true, false)),
+                 EmptyString))))))))) o)
+  | ARecv ->
+    if negb w.w_conn
+    then noconn w
+    else let (w1, o) = op_recv fUEL w in
+         upd_log w1
+           (show_outcome (fun x ->
+             match x with
+             | Some p -> show_msg p
+             | None ->
+               s2t (String ((Ascii (false, true, true, true, false, true,
+                 true, false)), (String ((Ascii (true, true, true, true,
+                 false, true, true, false)), (String ((Ascii (false, true,
+                 true, true, false, true, true, false)), (String ((Ascii
+                 (true, false, true, false, false, true, true, false)),
+                 EmptyString))))))))) o)
+  | AFeed (delay, bs) ->
+    upd_log (feed w delay bs)
+      (s2t (String ((Ascii (true, false, true, true, true, true, false,
+        false)), (String ((Ascii (false, false, false, false, false, true,
+        false, false)), (String ((Ascii (false, true, true, false, false,
+        true, true, false)), (String ((Ascii (true, false, true, false,
+        false, true, true, false)), (String ((Ascii (false, false, true,
+        false, false, true, true, false)), EmptyString)))))))))))
+  | AAdvance dt ->
+    upd_log (upd_now w (N.add w.w_now dt))
+      (app
+        (s2t (String ((Ascii (true, false, true, true, true, true, false,
+          false)), (String ((Ascii (false, false, false, false, false, true,
+          false, false)), (String ((Ascii (false, false, true, false, true,
+          true, true, false)), (String ((Ascii (false, false, false, false,
+          false, true, false, false)), EmptyString)))))))))
+        (show_N (N.add w.w_now dt)))
+  | ADropConn ->
+    upd_log (upd_live w false false N0)
+      (s2t (String ((Ascii (true, false, true, true, true, true, false,
+        false)), (String ((Ascii (false, false, false, false, false, true,
+        false, false)), (String ((Ascii (false, false, true, false, false,
+        true, true, false)), (String ((Ascii (false, true, false, false,
+        true, true, true, false)), (String ((Ascii (true, true, true, true,
+        false, true, true, false)), (String ((Ascii (false, false, false,
+        false, true, true, true, false)), (String ((Ascii (false, false,
+        false, false, true, true, true, false)), (String ((Ascii (true,
+        false, true, false, false, true, true, false)), (String ((Ascii
+        (false, false, true, false, false, true, true, false)),
+        EmptyString)))))))))))))))))))
+  | AHandleDisconnect ->
+    if negb w.w_conn
+    then noconn w
+    else upd_log (w_hd w)
+           (s2t (String ((Ascii (true, false, true, true, true, true, false,
+             false)), (String ((Ascii (false, false, false, false, false,
+             true, false, false)), (String ((Ascii (false, false, false,
+             true, false, true, true, false)), (String ((Ascii (false, false,
+             true, false, false, true, true, false)), EmptyString)))))))))
+  | ASetBroker m ->
+    upd_log (upd_broker w m)
+      (s2t (String ((Ascii (true, false, true, true, true, true, false,
+        false)), (String ((Ascii (false, false, false, false, false, true,
+        false, false)), (String ((Ascii (false, true, false, false, false,
+        true, true, false)), (String ((Ascii (false, true, false, false,
+        true, true, true, false)), (String ((Ascii (true, true, true, true,
+        false, true, true, false)), (String ((Ascii (true, true, false, true,
+        false, true, true, false)), (String ((Ascii (true, false, true,
+        false, false, true, true, false)), (String ((Ascii (false, true,
+        false, false, true, true, true, false)), EmptyString)))))))))))))))))
+  | ASetPid p ->
+    let s = w.w_sess in
+    let p' = if N.eqb p N0 then Npos XH else p in
+    upd_log
+      (upd_sess w { s_cfg = s.s_cfg; s_client_id = s.s_client_id; s_reader =
+        s.s_reader; s_ob = s.s_ob; s_pid = p'; s_gen = s.s_gen; s_sp =
+        s.s_sp; s_srv = s.s_srv; s_rt = s.s_rt })
+      (s2t (String ((Ascii (true, false, true, true, true, true, false,
+        false)), (String ((Ascii (false, false, false, false, false, true,
+        false, false)), (String ((Ascii (false, false, false, false, true,
+        true, true, false)), (String ((Ascii (true, false, false, true,
+        false, true, true, false)), (String ((Ascii (false, false, true,
+        false, false, true, true, false)), EmptyString)))))))))))
+
+(** val halted : world -> bool **)
+
+let halted w =
+  match w.w_log with
+  | [] -> false
+  | l :: _ ->
+    (||)
+      (list_eqb l
+        (s2t (String ((Ascii (true, false, true, true, true, true, false,
+          false)), (String ((Ascii (false, false, false, false, false, true,
+          false, false)), (String ((Ascii (false, false, false, false, true,
+          false, true, false)), (String ((Ascii (true, false, false, false,
+          false, false, true, false)), (String ((Ascii (false, true, true,
+          true, false, false, true, false)), (String ((Ascii (true, false,
+          false, true, false, false, true, false)), (String ((Ascii (true,
+          true, false, false, false, false, true, false)),
+          EmptyString))))))))))))))))
+      (list_eqb l
+        (s2t (String ((Ascii (true, false, true, true, true, true, false,
+          false)), (String ((Ascii (false, false, false, false, false, true,
+          false, false)), (String ((Ascii (false, true, true, false, false,
+          false, true, false)), (String ((Ascii (true, false, true, false,
+          true, false, true, false)), (String ((Ascii (true, false, true,
+          false, false, false, true, false)), (String ((Ascii (false, false,
+          true, true, false, false, true, false)), EmptyString))))))))))))))
+
+(** val step_action : world -> action -> world **)
+
+let step_action w a =
+  if halted w
+  then w
+  else let w1 =
+         run_action a
+           (upd_log w
+             (s2t (String ((Ascii (true, true, false, false, false, true,
+               false, false)), EmptyString))))
+       in
+       if halted w1 then w1 else upd_log w1 (show_state w1)
+
+(** val init_world : case -> world **)
+
+let init_world c =
+  { w_sess = (session_new c.c_cfg); w_conn = false; w_live = false; w_event =
+    N0; w_now = N0; w_inq = []; w_last_arrival = N0; w_txbuf = []; w_script =
+    c.c_script; w_broker = N0; w_log = []; w_handles = [] }
+
+(** val run_case : case -> world **)
+
+let run_case c =
+  fold_left step_action c.c_prog (init_world c)
+
+(** val show_run : case -> text **)
+
+let show_run c =
+  join
+    (s2t (String ((Ascii (false, false, true, true, true, true, true,
+      false)), EmptyString))) (rev (run_case c).w_log)
+
+(** val p_config : config parser0 **)
+
+let p_config =
+  p_bind p_N (fun rx ->
+    p_bind p_N (fun tx ->
+      p_bind p_bytes (fun cid ->
+        p_bind p_N (fun ka ->
+          p_bind p_N (fun ex ->
+            p_bind p_bool (fun dg ->
+              p_bind (p_opt p_will) (fun wl ->
+                p_bind (p_opt p_auth) (fun au ->
+                  p_ret { cf_rx = rx; cf_tx = tx; cf_client_id = cid;
+                    cf_keepalive_s = ka; cf_expiry = ex; cf_downgrade = dg;
+                    cf_will = wl; cf_auth = au }))))))))
+
+(** val p_chunk : (n * bytes) parser0 **)
+
+let p_chunk =
+  p_bind p_N (fun d -> p_bind p_bytes (fun b -> p_ret (d, b)))
+
+(** val p_pub_req : pub_req parser0 **)
+
+let p_pub_req =
+  p_bind p_bytes (fun t ->
+    p_bind p_properties (fun ps ->
+      p_bind p_qos (fun q ->
+        p_bind p_bytes (fun pl ->
+          p_bind p_bool (fun r ->
+            p_ret { pr_topic = t; pr_props = ps; pr_qos = q; pr_payload = pl;
+              pr_retain = r })))))
+
+(** val p_action : action parser0 **)
+
+let p_action =
+  p_bind p_N (fun k ->
+    if N.eqb k N0
+    then p_bind (p_list p_chunk) (fun c -> p_ret (AConnect c))
+    else if N.eqb k (Npos XH)
+         then p_bind p_pub_req (fun r -> p_ret (APublish r))
+         else if N.eqb k (Npos (XO XH))
+              then p_bind (p_list p_prop) (fun ps ->
+                     p_bind (p_list p_sub_topic) (fun ts ->
+                       p_ret (ASubscribe (ts, ps))))
+              else if N.eqb k (Npos (XI XH))
+                   then p_bind (p_list p_prop) (fun ps ->
+                          p_bind (p_list p_bytes) (fun ts ->
+                            p_ret (AUnsubscribe (ts, ps))))
+                   else if N.eqb k (Npos (XO (XO XH)))
+                        then p_bind p_disconnect_req (fun d ->
+                               p_ret (ADisconnect d))
+                        else if N.eqb k (Npos (XI (XO XH)))
+                             then p_ret ADrive
+                             else if N.eqb k (Npos (XO (XI XH)))
+                                  then p_ret APoll
+                                  else if N.eqb k (Npos (XI (XI XH)))
+                                       then p_ret ARecv
+                                       else if N.eqb k (Npos (XO (XO (XO
+                                                 XH))))
+                                            then p_bind p_N (fun d ->
+                                                   p_bind p_bytes (fun b ->
+                                                     p_ret (AFeed (d, b))))
+                                            else if N.eqb k (Npos (XI (XO (XO
+                                                      XH))))
+                                                 then p_bind p_N (fun d ->
+                                                        p_ret (AAdvance d))
+                                                 else if N.eqb k (Npos (XO
+                                                           (XI (XO XH))))
+                                                      then p_ret ADropConn
+                                                      else if N.eqb k (Npos
+                                                                (XI (XI (XO
+                                                                XH))))
+                                                           then p_ret
+                                                                  AHandleDisconnect
+                                                           else if N.eqb k
+                                                                    (Npos (XO
+                                                                    (XO (XI
+                                                                    XH))))
+                                                                then 
+                                                                  p_bind p_N
+                                                                    (fun m ->
+                                                                    p_ret
+                                                                    (ASetBroker
+                                                                    m))
+                                                                else 
+                                                                  if 
+                                                                    N.eqb k
+                                                                    (Npos (XI
+                                                                    (XO (XI
+                                                                    XH))))
+                                                                  then 
+                                                                    p_bind
+                                                                    p_N
+                                                                    (fun p ->
+                                                                    p_ret
+                                                                    (ASetPid
+                                                                    p))
+                                                                  else 
+                                                                    (fun _ ->
+                                                                    None))
+
+(** val p_ev : (n * n) parser0 **)
+
+let p_ev =
+  p_bind p_N (fun k -> p_bind p_N (fun a -> p_ret (k, a)))
+
+(** val p_case : case parser0 **)
+
+let p_case =
+  p_bind p_config (fun cfg ->
+    p_bind (p_list p_action) (fun prog ->
+      p_bind (p_list p_ev) (fun sc ->
+        p_ret { c_cfg = cfg; c_prog = prog; c_script = sc })))
+
 (** val run_p : 'a1 parser0 -> ('a1 -> text) -> n list -> text **)
 
 let run_p p f l =
@@ -2754,7 +6416,12 @@ let exec_codec cmd l =
                                                       then enc_pingreq cap
                                                       else enc_ack cap k pid
                                                              rc)) l)
-                                          else None
+                                          else if N.eqb cmd (Npos (XO (XI (XO
+                                                    XH))))
+                                               then Some
+                                                      (run_p p_case show_run
+                                                        l)
+                                               else None
 
 (** val exec : n list -> text **)
 
